@@ -20,22 +20,33 @@ Arguments Z.to_nat : simpl never.
 Arguments Z.of_nat : simpl never.
 
 (* ---------- the relation ---------- *)
-Definition RA_ok (ra : rattr) : Prop :=
-  match r_fg ra with Some n => 0 <= n < 8 | None => True end /\
-  match r_bg ra with Some n => 0 <= n < 8 | None => True end.
+(* reference colours: c < 256 palette index, 256 + rgb direct colour *)
+Definition col_ok (c : oz) : Prop := match c with None => True | Some n => 0 <= n < 256 + 16777216 end.
+Definition RA_ok (ra : rattr) : Prop := col_ok (r_fg ra) /\ col_ok (r_bg ra).
+Definition below (k : Z) (c : oz) : Prop := match c with None => True | Some n => n < k end.
 
-(* the AttrSpec the emulator holds for a VT100 rendition (bold brightens the 16-colour foreground) *)
-Definition attr_of_ref (ra : rattr) : option attr :=
+(* the number the emulator stores for a reference colour in an AttrSpec of depth d *)
+Definition col_at (d c : Z) : Z := if d =? 16777216 then (if c <? 256 then palette c else c - 256) else c.
+(* depths at which a reference rendition can be held: 16 needs the eight classic colours, 256 palette indexes *)
+Definition depth_ok (d : Z) (ra : rattr) : Prop :=
+  (d = 16 /\ below 8 (r_fg ra) /\ below 8 (r_bg ra)) \/ (d = 256 /\ below 256 (r_fg ra) /\ below 256 (r_bg ra)) \/ d = 16777216.
+(* the AttrSpec (as vterm.py reads it back) for a reference rendition at depth d: at 16 colours bold brightens the
+   foreground *)
+Definition attr_at (d : Z) (ra : rattr) : option attr :=
   if is_none (r_fg ra) && is_none (r_bg ra) && negb (r_bold ra || r_ul ra || r_blink ra || r_rev ra) then None
-  else Some (mkAttr (match r_fg ra with Some n => Some (if r_bold ra then n + 8 else n) | None => None end) (r_bg ra)
-                    (if is_none (r_fg ra) && is_none (r_bg ra) then 1 else 16)
+  else Some (mkAttr (match r_fg ra with Some n => Some (if (d =? 16) && r_bold ra then n + 8 else col_at d n) | None => None end)
+                    (match r_bg ra with Some n => Some (col_at d n) | None => None end)
+                    (if is_none (r_fg ra) && is_none (r_bg ra) then 1 else d)
                     (r_bold ra) (r_ul ra) (r_blink ra) (r_rev ra)).
+(* the depth is history: 38;5;1 gives a 256-colour "h1" where 31 gives a 16-colour "dark red", and it sticks until both
+   colours are default again *)
+Definition attr_rel (a : option attr) (ra : rattr) : Prop := exists d, depth_ok d ra /\ a = attr_at d ra.
 
 Definition cell_rel (c : cell) (r : rcell) : Prop :=
   snd c = [fst r] /\
   match snd r with
   | None => True
-  | Some (ra, rcs) => fst (fst c) = attr_of_ref ra /\ RA_ok ra /\ snd (fst c) = rcs
+  | Some (ra, rcs) => attr_rel (fst (fst c)) ra /\ RA_ok ra /\ snd (fst c) = rcs
   end.
 (* the emulator's TermCharset against the reference's (G0, G1, shift); no ibmpc / SGR mapping in the subset *)
 Definition cs_rel (c : charset_t) (k : Z * Z * Z) : Prop :=
@@ -59,7 +70,7 @@ Record R0 (t : st) (v : vt) : Prop := mkR0 {
   r_bot : sr_end t = v_bot v;
   r_pend : rotten t = v_pend v;
   r_pendx : v_pend v = true -> v_x v = v_w v - 1;
-  r_attr : attrspec t = attr_of_ref (v_attr v);
+  r_attr : attr_rel (attrspec t) (v_attr v);
   r_raok : RA_ok (v_attr v);
   r_u8 : u8eat t = None;
   r_modes : modes t = modes0;
@@ -73,6 +84,7 @@ Ltac hist :=
       | H : events ?t' = events ?t, R : replies_of (events ?t) = _ |- replies_of (events ?t') = _ => rewrite H; exact R
       | H : sb ?t' = sb ?t, R : _ = true -> grid_rel (sb ?t) _ |- _ = true -> grid_rel (sb ?t') _ => rewrite H; exact R
       | H : cset ?t' = cset ?t, R : cs_rel (cset ?t) _ |- cs_rel (cset ?t') _ => rewrite H; exact R
+      | H : attrspec ?t' = attrspec ?t, R : attr_rel (attrspec ?t) _ |- attr_rel (attrspec ?t') _ => rewrite H; exact R
       end.
 
 Definition R (s : st) (v : vt) : Prop := R0 s v /\ inesc s = false /\ pstate s = 0.
@@ -438,6 +450,12 @@ Qed.
 Lemma Forall2_repeat {A B} (P : A -> B -> Prop) a b n : P a b -> Forall2 P (repeat a n) (repeat b n).
 Proof. intros. induction n; cbn; constructor; auto. Qed.
 
+Lemma attr_rel_default : attr_rel None ra0.
+Proof. exists 16777216. split; [right; right; reflexivity|reflexivity]. Qed.
+
+Lemma RA_ok_default : RA_ok ra0.
+Proof. split; exact Logic.I. Qed.
+
 Lemma R_reset S :
   Inv (reset S) -> 1 <= width S -> 1 <= height S -> u8eat S = None -> m_bracketed (modes S) = false ->
   sb S = [] -> events S = [] ->
@@ -447,10 +465,11 @@ Proof.
   destruct (reset_fields S) as (F1 & F2 & F3 & F4 & F5 & F6 & F7 & F8 & F9 & F10 & F11 & F12 & F13 & F14 & F15 & F16). cbv zeta in *.
   split; [|split; assumption].
   constructor; cbn [vt_init v_w v_h v_g v_x v_y v_pend v_top v_bot v_attr];
-    rewrite ?F1, ?F2, ?F3, ?F4, ?F5, ?F6, ?F7, ?F8, ?F9, ?F10, ?F11, ?F14, ?F15, ?F16, ?Hsb, ?Hev; auto; try reflexivity; try discriminate.
-  - unfold repeatz. apply Forall2_repeat. apply Forall2_repeat. split; [reflexivity|]. split; [reflexivity|]. split; [split; exact Logic.I|reflexivity].
+    rewrite ?F1, ?F2, ?F3, ?F4, ?F5, ?F6, ?F7, ?F8, ?F9, ?F10, ?F11, ?F14, ?F15, ?F16, ?Hsb, ?Hev; auto; try (reflexivity || discriminate).
+  - unfold repeatz. apply Forall2_repeat. apply Forall2_repeat. split; [reflexivity|]. split; [apply attr_rel_default|]. split; [apply RA_ok_default|reflexivity].
   - unfold clamp. split_ifs; try lia. reflexivity.
-  - split; exact Logic.I.
+  - apply attr_rel_default.
+  - apply RA_ok_default.
   - unfold modes_reset, modes0. rewrite Hb. reflexivity.
   - unfold cs_rel, charset_new. cbn. repeat split; auto.
   - intros _. constructor.
@@ -467,19 +486,48 @@ Proof.
 Qed.
 
 (* ---------- what R gives at the end ---------- *)
-Lemma attr_round ra : RA_ok ra -> rattr_eqb (attr_as_ref (attr_of_ref ra)) ra = true.
+Ltac lia_cmp0 :=
+  repeat match goal with
+         | |- context [?a <=? ?b] => first [replace (a <=? b) with true by lia | replace (a <=? b) with false by lia]
+         | |- context [?a <? ?b] => first [replace (a <? b) with true by lia | replace (a <? b) with false by lia]
+         | |- context [?a =? ?b] => first [replace (a =? b) with true by lia | replace (a =? b) with false by lia]
+         end.
+
+Lemma colour_shows_at d bold side c :
+  (d = 16 /\ below 8 c) \/ (d = 256 /\ below 256 c) \/ d = 16777216 -> col_ok c ->
+  colour_shows (match c with Some n => Some (if (d =? 16) && (side && bold) then n + 8 else col_at d n) | None => None end)
+               d bold side c = true.
 Proof.
-  destruct ra as [fg bg bo ul bl rv]. unfold RA_ok, attr_of_ref, attr_as_ref, rattr_eqb. cbn [r_fg r_bg r_bold r_ul r_blink r_rev].
-  intros [Hf Hb].
-  destruct fg as [f|], bg as [b|], bo, ul, bl, rv; cbn [is_none andb orb negb a_fg a_bg a_colors a_bold a_ul a_blink a_so
-    r_fg r_bg r_bold r_ul r_blink r_rev ra0 oz_eqb Bool.eqb]; split_ifs; cbn [oz_eqb andb]; try lia; reflexivity.
+  intros Hd Hc. destruct c as [n|]; [|reflexivity]. unfold colour_shows, col_at, below, col_ok in *.
+  destruct Hd as [[-> Hn] | [[-> Hn] | ->]].
+  - replace (16 =? 16777216) with false by reflexivity. replace (16 =? 16) with true by reflexivity. cbn [andb].
+    destruct side, bold; cbn [andb]; lia_cmp0; cbn [andb]; reflexivity.
+  - replace (256 =? 16777216) with false by reflexivity. replace (256 =? 16) with false by reflexivity. cbn [andb].
+    lia_cmp0. reflexivity.
+  - replace (16777216 =? 16777216) with true by reflexivity. replace (16777216 =? 16) with false by reflexivity. cbn [andb].
+    lia_cmp0. reflexivity.
+Qed.
+
+Lemma attr_rel_shows a ra : attr_rel a ra -> RA_ok ra -> attr_shows a ra = true.
+Proof.
+  intros (d & Hd & ->) [Of Ob]. destruct ra as [fg bg bo ul bl rv]. unfold attr_at, attr_shows, depth_ok in *.
+  cbn [r_fg r_bg r_bold r_ul r_blink r_rev] in *.
+  destruct (is_none fg && is_none bg && negb (bo || ul || bl || rv)) eqn:E.
+  - destruct fg, bg; try discriminate. exact E.
+  - cbn [a_fg a_bg a_colors a_bold a_ul a_blink a_so].
+    assert (forall b : bool, Bool.eqb b b = true) as Hb by (intros []; reflexivity). rewrite !Hb. rewrite !andb_true_r.
+    destruct (is_none fg && is_none bg) eqn:E2.
+    + destruct fg, bg; try discriminate. reflexivity.
+    + pose proof (colour_shows_at d bo true fg) as Cf. pose proof (colour_shows_at d bo false bg) as Cb.
+      cbn [andb] in Cf, Cb. rewrite andb_false_r in Cb.
+      rewrite Cf, Cb; auto; destruct Hd as [(-> & H1 & H2) | [(-> & H1 & H2) | ->]]; auto.
 Qed.
 
 Lemma cell_rel_agrees c r : cell_rel c r -> cell_agrees c r = true.
 Proof.
   destruct c as [[a cs] ch], r as [rc ra]. unfold cell_rel, cell_agrees. cbn [fst snd]. intros [-> H].
   cbn [list_eqb]. replace (rc =? rc) with true by lia. cbn [andb].
-  destruct ra as [[ra rcs]|]; [|reflexivity]. destruct H as (-> & Hok & ->). rewrite attr_round by assumption.
+  destruct ra as [[ra rcs]|]; [|reflexivity]. destruct H as (Ha & Hok & ->). rewrite (attr_rel_shows _ _ Ha Hok).
   replace (rcs =? rcs) with true by lia. reflexivity.
 Qed.
 
@@ -492,1331 +540,5 @@ Proof.
   intros []. unfold agrees. rewrite r_cur0, r_top0, r_bot0. cbn [fst snd].
   rewrite (all2_Forall2 _ (Forall2 cell_rel) _ _ (fun a b => all2_Forall2 _ cell_rel a b cell_rel_agrees) r_grid0).
   cbn [andb]. lia.
-Qed.
-
-(* ---------- the relation without the pending-wrap part (holds in the middle of a command) ---------- *)
-Record Rg (t : st) (v : vt) : Prop := mkRg {
-  g_inv : Inv t;
-  g_w : width t = v_w v;
-  g_h : height t = v_h v;
-  g_grid : grid_rel (term t) (v_g v);
-  g_cur : cur t = (v_x v, v_y v);
-  g_top : sr_start t = v_top v;
-  g_bot : sr_end t = v_bot v;
-  g_attr : attrspec t = attr_of_ref (v_attr v);
-  g_raok : RA_ok (v_attr v);
-  g_u8 : u8eat t = None;
-  g_modes : modes t = modes0;
-  g_cset : cs_rel (cset t) (v_cs v);
-  g_tabs : tabstops t = tabs0 (v_w v);
-  g_replies : replies_of (events t) = map render_reply (v_replies v);
-  g_sb : v_sbknown v = true -> grid_rel (sb t) (tail_max (v_sb v)) }.
-
-Lemma R0_Rg t v : R0 t v -> Rg t v.
-Proof. intros []. constructor; assumption. Qed.
-
-Lemma Rg_R0 t v : Rg t v -> rotten t = v_pend v -> (v_pend v = true -> v_x v = v_w v - 1) -> R0 t v.
-Proof. intros [] H1 H2. constructor; assumption. Qed.
-
-Lemma Rg_bounds t v : Rg t v ->
-  1 <= v_w v /\ 1 <= v_h v /\ 0 <= v_x v < v_w v /\ 0 <= v_y v < v_h v /\
-  0 <= v_top v /\ v_top v <= v_bot v /\ v_bot v < v_h v /\ zlen (v_g v) = v_h v.
-Proof.
-  intros []. pose proof (Forall2_zlen _ _ _ g_grid0) as L. destruct g_inv0. rewrite g_cur0 in *. cbn [fst snd] in *.
-  unfold row, cell, rrow, rcell in *. lia.
-Qed.
-
-(* Rg does not read the pending flag of the reference, nor rotten / parser fields of the emulator *)
-Lemma Rg_pend t v x y p p' : Rg t (with_xy v x y p) -> Rg t (with_xy v x y p').
-Proof. intros []. constructor; assumption. Qed.
-
-Lemma Rg_same t t' v :
-  Rg t v -> Inv t' -> same_gfx t t' -> cur t' = cur t -> Rg t' v.
-Proof.
-  intros [] I' (E1 & E2 & E3 & E4 & E5 & E6 & E7 & E8 & E9 & E10 & E11 & E12) Hc. constructor; try congruence; auto; hist.
-Qed.
-
-Lemma Rg_rotten t v b : Rg t v -> Rg (with_rotten t b) v.
-Proof.
-  intros H. eapply Rg_same; [exact H|eapply K_Inv; apply with_rotten_K; apply H| |reflexivity]. repeat split.
-Qed.
-
-(* moving the cursor *)
-Lemma Rg_move t v x y p :
-  Rg t v -> Rg (set_term_cursor t x y) (with_xy v (clamp x (v_w v)) (clamp y (v_h v)) p).
-Proof.
-  intros H. pose proof H as [].
-  destruct (stc_frame t x y) as ((E1 & E2 & E3 & E4 & E5 & E6 & E7 & E8 & E9 & E10 & E11 & E12) & C & _).
-  constructor; cbn [with_xy v_w v_h v_g v_x v_y v_pend v_top v_bot v_attr v_sb v_sbknown v_replies v_cs]; try congruence; auto; hist.
-  - eapply K_Inv. apply set_term_cursor_K. assumption.
-  - rewrite C. rewrite constrain_plain by (rewrite g_modes0; reflexivity). rewrite g_w0, g_h0. reflexivity.
-Qed.
-
-(* ---------- rows ---------- *)
-Definition rowz (t : list row) (y : Z) : row := match nthz t y with Some r => r | None => [] end.
-
-Lemma rowz_rel t g y : grid_rel t g -> 0 <= y < zlen t ->
-  nthz t y = Some (rowz t y) /\ nthz g y = Some (nth_row g y) /\ Forall2 cell_rel (rowz t y) (nth_row g y).
-Proof.
-  intros H Hy. destruct (nthz_some t y Hy) as (r & Hr & _). unfold rowz, nth_row.
-  destruct (Forall2_nthz _ _ _ _ _ H Hr) as (r' & Hr' & P). unfold row, cell, rrow, rcell in *. rewrite Hr, Hr'. auto.
-Qed.
-
-Lemma grid_set_row t g y r r' :
-  grid_rel t g -> Forall2 cell_rel r r' ->
-  grid_rel (takez y t ++ r :: dropz (y + 1) t) (set_row g y r').
-Proof.
-  intros H Hr. unfold set_row, grid_rel. apply Forall2_app; [apply Forall2_takez; exact H|].
-  constructor; [exact Hr|apply Forall2_dropz; exact H].
-Qed.
-
-Lemma blank_rel t n : Forall2 cell_rel (repeatz (empty_char t [32]) n) (blanks n).
-Proof. unfold repeatz, blanks. apply Forall2_repeat'. split; [reflexivity|exact Logic.I]. Qed.
-
-Lemma blank_line_rel t v : Rg t v -> Forall2 cell_rel (empty_line t [32]) (blanks (v_w v)).
-Proof. intros []. unfold empty_line. rewrite g_w0. apply blank_rel. Qed.
-
-(* replacing the grid *)
-Lemma Rg_term t v t1 g1 :
-  Rg t v -> Dims (width t) (height t) t1 -> grid_rel t1 g1 -> Rg (with_term t t1) (with_g v g1).
-Proof.
-  intros H D G. pose proof H as [].
-  constructor; cbn [with_g v_w v_h v_g v_x v_y v_pend v_top v_bot v_attr width height term cur sr_start sr_end attrspec
-                    u8eat modes cset with_term]; auto.
-  eapply K_Inv. apply with_term_K; assumption.
-Qed.
-
-Lemma Dims_rel w h t g : grid_rel t g -> zlen g = h -> Forall (fun r : rrow => zlen r = w) g -> Dims w h t.
-Proof.
-  unfold Dims, grid_rel, row, cell, rrow, rcell. intros G L F.
-  split; [pose proof (Forall2_zlen _ _ _ G); lia|]. clear L.
-  induction G; constructor.
-  - inversion F; subst. pose proof (Forall2_zlen _ _ _ H). lia.
-  - inversion F; subst. apply IHG. assumption.
-Qed.
-
-Lemma Rg_upd t t' v g1 :
-  Rg t v -> Inv t' -> width t' = width t -> height t' = height t -> cur t' = cur t -> sr_start t' = sr_start t ->
-  sr_end t' = sr_end t -> attrspec t' = attrspec t -> u8eat t' = u8eat t -> modes t' = modes t -> cset t' = cset t ->
-  tabstops t' = tabstops t -> sb t' = sb t -> events t' = events t -> grid_rel (term t') g1 -> Rg t' (with_g v g1).
-Proof.
-  intros [] I' E1 E2 E3 E4 E5 E6 E7 E8 E9 E10 E11 E12 G.
-  constructor; cbn [with_g v_w v_h v_g v_x v_y v_pend v_top v_bot v_attr v_sb v_sbknown v_replies v_cs]; try congruence; auto; hist.
-Qed.
-
-Lemma rowz_len t y : Inv t -> 0 <= y < height t -> zlen (rowz (term t) y) = width t.
-Proof.
-  intros I Hy. pose proof (i_rows t I) as Hr. pose proof (i_cols t I) as Hc.
-  destruct (nthz_some (term t) y) as (r & E & Hin); [lia|]. unfold rowz. rewrite E.
-  rewrite Forall_forall in Hc. apply Hc. assumption.
-Qed.
-
-Lemma clamp_in x n : 0 <= x < n -> clamp x n = x.
-Proof. intros. unfold clamp. split_ifs; lia. Qed.
-
-(* TermCanvas.set_char at the cursor *)
-Definition put_term (t : st) (ch : list Z) : list row :=
-  let x := fst (cur t) in let y := snd (cur t) in let r := rowz (term t) y in
-  takez y (term t) ++ (takez x r ++ (attrspec t, cs_current (cset t), ch) :: dropz (x + 1) r) :: dropz (y + 1) (term t).
-
-Lemma set_char_eq t v ch :
-  Rg t v -> set_char t ch (fst (cur t)) (snd (cur t)) = Ok (with_term t (put_term t ch)).
-Proof.
-  intros H. pose proof (Rg_bounds t v H) as B. pose proof H as [].
-  unfold set_char. rewrite constrain_plain by (rewrite g_modes0; reflexivity).
-  rewrite g_cur0. cbn [fst snd]. rewrite g_w0, g_h0. rewrite !clamp_in by lia.
-  assert (0 <= v_y v < zlen (term t)) as Hy by (rewrite (i_rows t g_inv0), g_h0; lia).
-  destruct (rowz_rel (term t) (v_g v) (v_y v) g_grid0 Hy) as (N1 & _ & _).
-  assert (0 <= v_y v) as Hy0 by lia. rewrite (get_index_nthz (term t) (v_y v) _ Hy0 N1). cbn [bind].
-  pose proof (rowz_len t (v_y v) g_inv0 ltac:(lia)) as Lr.
-  rewrite set_index_eq by lia. cbn [bind]. rewrite set_index_eq by lia. cbn [bind].
-  unfold put_term. rewrite g_cur0. reflexivity.
-Qed.
-
-(* the reference's effect of writing a character at its cursor *)
-Definition put_ref (v : vt) (ch : Z) : vt :=
-  let r := nth_row (v_g v) (v_y v) in
-  with_g v (set_row (v_g v) (v_y v) (takez (v_x v) r ++ (ch, Some (v_attr v, cur_cs v)) :: dropz (v_x v + 1) r)).
-
-Lemma put_grid_rel t v ch : Rg t v -> grid_rel (put_term t [ch]) (v_g (put_ref v ch)).
-Proof.
-  intros H. pose proof (Rg_bounds t v H) as B. pose proof H as [].
-  unfold put_term, put_ref. cbv zeta. rewrite g_cur0. cbn [fst snd with_g v_g].
-  assert (0 <= v_y v < zlen (term t)) as Hy by (rewrite (i_rows t g_inv0), g_h0; lia).
-  destruct (rowz_rel (term t) (v_g v) (v_y v) g_grid0 Hy) as (_ & _ & Rr).
-  apply grid_set_row; [assumption|].
-  apply Forall2_app; [apply Forall2_takez; exact Rr|]. constructor; [|apply Forall2_dropz; exact Rr].
-  split; [reflexivity|]. cbn [fst snd]. split; [assumption|]. split; [assumption|].
-  unfold cs_rel, cur_cs in *. destruct (v_cs v) as [[g0 g1] sh]. destruct g_cset0 as (_ & _ & _ & _ & _ & _ & _ & Ec). exact Ec.
-Qed.
-
-Lemma apply_mapping_id c k ch : cs_rel c k -> apply_mapping c ch = (c, ch).
-Proof.
-  destruct k as [[g0 g1] sh]. intros (E1 & E2 & E3 & E4 & E5 & E6 & E7 & E8). unfold apply_mapping, cs_g. rewrite E1, E6.
-  destruct E7 as [-> | [-> Hg]].
-  - replace (0 =? 0) with true by reflexivity. rewrite E2. destruct E3 as [-> | ->]; reflexivity.
-  - replace (1 =? 0) with false by reflexivity. destruct E4 as [-> | ->]; reflexivity.
-Qed.
-
-Lemma apply_mapping_new ch : apply_mapping charset_new ch = (charset_new, ch).
-Proof. reflexivity. Qed.
-
-(* TermCanvas.push_char *)
-Lemma push_char_Rg t v ch x' y' p :
-  Rg t v ->
-  exists t', push_char t [ch] x' y' = Ok t' /\
-             Rg t' (with_xy (put_ref v ch) (clamp x' (v_w v)) (clamp y' (v_h v)) p) /\
-             rotten t' = rotten t /\ inesc t' = inesc t /\ pstate t' = pstate t.
-Proof.
-  intros H. pose proof H as [].
-  unfold push_char. rewrite (apply_mapping_id _ _ [ch] g_cset0).
-  set (t0 := with_cset t (cset t)).
-  assert (Rg t0 v) as H0.
-  { eapply Rg_same; [exact H|eapply K_Inv; apply with_cset_K; assumption| |reflexivity]. repeat split; reflexivity. }
-  replace (m_insert (modes t0)) with false by (subst t0; cbn [modes with_cset]; rewrite g_modes0; reflexivity).
-  rewrite (set_char_eq t0 v [ch] H0). cbn [bind].
-  set (t1 := with_term t0 (put_term t0 [ch])).
-  assert (Rg t1 (put_ref v ch)) as H1.
-  { pose proof (set_char_Keeps t0 [ch] (fst (cur t0)) (snd (cur t0)) (g_inv t0 v H0)) as Kp.
-    rewrite (set_char_eq t0 v [ch] H0) in Kp. apply K_Inv in Kp.
-    unfold put_ref. cbv zeta. eapply Rg_upd; [exact H0|exact Kp|..]; try reflexivity.
-    apply (put_grid_rel t0 v ch H0). }
-  eexists. split; [reflexivity|].
-  destruct (stc_frame t1 x' y') as (_ & _ & Fr & Fi & Fp & _).
-  split; [|split; [rewrite Fr; reflexivity|split; [rewrite Fi; reflexivity|rewrite Fp; reflexivity]]].
-  pose proof (Rg_move t1 (put_ref v ch) x' y' p H1) as M. exact M.
-Qed.
-
-(* ---------- scrolling ---------- *)
-Lemma tail_max_push (b : list row) (l : list rrow) r r' :
-  grid_rel b (tail_max l) -> Forall2 cell_rel r r' -> grid_rel (sb_push b r) (tail_max (l ++ [r'])).
-Proof.
-  intros Hb Hr. pose proof (Forall2_zlen _ _ _ Hb) as Lb. unfold grid_rel, tail_max, sb_push in *. cbv zeta.
-  unfold scrollback_maxlen_gen in *. unfold row, cell, rrow, rcell in *. pose proof (zlen_nonneg l) as Ll.
-  assert (zlen (l ++ [r']) = zlen l + 1) as La by (unfold zlen; rewrite app_length; cbn [length]; lia).
-  assert (zlen (b ++ [r]) = zlen b + 1) as Lba by (unfold zlen; rewrite app_length; cbn [length]; lia).
-  rewrite La, Lba.
-  destruct (Z_lt_ge_dec (zlen l) 10000) as [C|C].
-  - rewrite (dropz_nonpos l) in * by lia. rewrite (dropz_nonpos (l ++ [r'])) by lia.
-    replace (10000 <? zlen b + 1) with false by lia. apply Forall2_app; [exact Hb|]. constructor; [exact Hr|constructor].
-  - rewrite zlen_dropz in Lb by lia.
-    replace (10000 <? zlen b + 1) with true by lia.
-    replace (zlen l + 1 - 10000) with (1 + (zlen l - 10000)) by lia.
-    rewrite <- dropz_dropz' by lia. apply Forall2_dropz.
-    rewrite dropz_app. rewrite (dropz_nonpos [r']) by lia.
-    apply Forall2_app; [exact Hb|]. constructor; [exact Hr|constructor].
-Qed.
-
-Lemma scroll_up_Rg t v :
-  Rg t v ->
-  exists t', scroll t false = Ok t' /\ Rg t' (scroll_up v) /\
-             rotten t' = rotten t /\ inesc t' = inesc t /\ pstate t' = pstate t.
-Proof.
-  intros H. pose proof (Rg_bounds t v H) as B. pose proof H as [].
-  pose proof (scroll_Keeps t false g_inv0) as Kp.
-  unfold scroll in *. rewrite g_top0 in *.
-  assert (zlen (term t) = v_h v) as Lt by (rewrite (i_rows t g_inv0); exact g_h0).
-  destruct (rowz_rel (term t) (v_g v) (v_top v) g_grid0 ltac:(lia)) as (N1 & _ & _).
-  rewrite (pop_eq (term t) (v_top v) _ ltac:(lia) N1) in *. cbn [bind fst snd] in *.
-  set (t1 := sb_append t (rowz (term t) (v_top v))) in *.
-  set (T := takez (v_top v) (term t) ++ dropz (v_top v + 1) (term t)) in *.
-  assert (zlen T = v_h v - 1) as LT.
-  { subst T. rewrite zlen_app, zlen_takez, zlen_dropz by lia. lia. }
-  change (sr_end t1) with (sr_end t) in *. rewrite g_bot0 in *.
-  rewrite (insert_eq T (v_bot v)) in * by lia.
-  eexists. split; [reflexivity|]. split; [|repeat split; reflexivity].
-  apply K_Inv in Kp.
-  unfold scroll_up.
-  destruct (rowz_rel (term t) (v_g v) (v_top v) g_grid0 ltac:(lia)) as (_ & _ & Rtop).
-  constructor; cbn [v_w v_h v_g v_x v_y v_pend v_top v_bot v_attr v_sb v_sbknown v_replies v_cs]; auto.
-  2:{ intros Hk. apply andb_prop in Hk. destruct Hk as [Hk1 Hk2]. rewrite Hk2. apply Z.eqb_eq in Hk2.
-      cbn [sb with_term]. subst t1. unfold sb_append. cbv zeta. cbn [sb with_sb]. fold (sb_push (sb t) (rowz (term t) (v_top v))).
-      apply tail_max_push; [apply g_sb0; exact Hk1|]. rewrite Hk2 in Rtop. rewrite Hk2. exact Rtop. }
-  subst T. cbn [term with_term].
-  rewrite (scroll_up_list (term t) (v_top v) (v_bot v)) by lia.
-  unfold grid_rel, sub. replace (v_bot v + 1 - (v_top v + 1)) with (v_bot v - v_top v) by lia.
-  apply Forall2_app; [apply Forall2_takez; exact g_grid0|].
-  apply Forall2_app; [apply Forall2_takez; apply Forall2_dropz; exact g_grid0|].
-  constructor; [|apply Forall2_dropz; exact g_grid0].
-  unfold empty_line. change (width t1) with (width t). rewrite g_w0. apply blank_rel.
-Qed.
-
-Lemma scroll_down_Rg t v :
-  Rg t v ->
-  exists t', scroll t true = Ok t' /\ Rg t' (scroll_down v) /\
-             rotten t' = rotten t /\ inesc t' = inesc t /\ pstate t' = pstate t.
-Proof.
-  intros H. pose proof (Rg_bounds t v H) as B. pose proof H as [].
-  pose proof (scroll_Keeps t true g_inv0) as Kp.
-  unfold scroll in *. rewrite g_top0, g_bot0 in *.
-  assert (zlen (term t) = v_h v) as Lt by (rewrite (i_rows t g_inv0); exact g_h0).
-  destruct (rowz_rel (term t) (v_g v) (v_bot v) g_grid0 ltac:(lia)) as (N1 & _ & _).
-  rewrite (pop_eq (term t) (v_bot v) _ ltac:(lia) N1) in *. cbn [bind fst snd] in *.
-  set (T := takez (v_bot v) (term t) ++ dropz (v_bot v + 1) (term t)) in *.
-  assert (zlen T = v_h v - 1) as LT.
-  { subst T. rewrite zlen_app, zlen_takez, zlen_dropz by lia. lia. }
-  rewrite (insert_eq T (v_top v)) in * by lia.
-  eexists. split; [reflexivity|]. split; [|repeat split; reflexivity].
-  apply K_Inv in Kp.
-  unfold scroll_down.
-  eapply Rg_upd; [exact H|exact Kp|..]; try reflexivity.
-  subst T. cbn [term with_term].
-  rewrite (scroll_down_list (term t) (v_top v) (v_bot v)) by lia.
-  unfold grid_rel, sub.
-  apply Forall2_app; [apply Forall2_takez; exact g_grid0|].
-  constructor; [rewrite <- g_w0; apply blank_rel|].
-  apply Forall2_app; [apply Forall2_takez; apply Forall2_dropz; exact g_grid0|apply Forall2_dropz; exact g_grid0].
-Qed.
-
-(* ---------- LF, RI ---------- *)
-Lemma with_xy_id v : with_xy v (v_x v) (v_y v) (v_pend v) = v.
-Proof. destruct v. reflexivity. Qed.
-
-Lemma Rg_stay t v : Rg t v -> Rg (set_term_cursor t (v_x v) (v_y v)) v.
-Proof.
-  intros H. pose proof (Rg_bounds t v H) as B.
-  pose proof (Rg_move t v (v_x v) (v_y v) (v_pend v) H) as M.
-  rewrite !clamp_in in M by lia. rewrite with_xy_id in M. exact M.
-Qed.
-
-Lemma linefeed_Rg t v :
-  Rg t v ->
-  exists t', linefeed t false = Ok t' /\ Rg t' (index v) /\
-             rotten t' = rotten t /\ inesc t' = inesc t /\ pstate t' = pstate t.
-Proof.
-  intros H. pose proof (Rg_bounds t v H) as B. pose proof H as [].
-  unfold linefeed, index. rewrite g_cur0, g_h0, g_bot0.
-  destruct ((v_h v - 1 <=? v_y v) && (v_bot v <? v_h v - 1)) eqn:C1.
-  - replace (v_y v =? v_bot v) with false by lia. replace (v_y v <? v_h v - 1) with false by lia.
-    eexists. split; [reflexivity|]. split; [apply Rg_stay; assumption|].
-    destruct (stc_frame t (v_x v) (v_y v)) as (_ & _ & Fr & Fi & Fp & _). auto.
-  - destruct (v_y v =? v_bot v) eqn:C2.
-    + destruct (scroll_up_Rg t v H) as (t1 & E1 & H1 & Fr1 & Fi1 & Fp1). rewrite E1. cbn [bind].
-      eexists. split; [reflexivity|].
-      destruct (stc_frame t1 (v_x v) (v_y v)) as (_ & _ & Fr & Fi & Fp & _).
-      split; [|rewrite Fr, Fi, Fp; auto].
-      apply (Rg_stay t1 (scroll_up v) H1).
-    + replace (v_y v <? v_h v - 1) with true by lia.
-      eexists. split; [reflexivity|].
-      destruct (stc_frame t (v_x v) (v_y v + 1)) as (_ & _ & Fr & Fi & Fp & _).
-      split; [|auto].
-      pose proof (Rg_move t v (v_x v) (v_y v + 1) (v_pend v) H) as M. rewrite !clamp_in in M by lia. exact M.
-Qed.
-
-Lemma rlinefeed_Rg t v :
-  Rg t v ->
-  exists t', linefeed t true = Ok t' /\ Rg t' (exec v CRi) /\
-             rotten t' = rotten t /\ inesc t' = inesc t /\ pstate t' = pstate t.
-Proof.
-  intros H. pose proof (Rg_bounds t v H) as B. pose proof H as [].
-  unfold linefeed. cbn [exec]. rewrite g_cur0, g_top0.
-  destruct ((v_y v <=? 0) && (0 <? v_top v)) eqn:C1.
-  - replace (v_y v =? v_top v) with false by lia. replace (0 <? v_y v) with false by lia.
-    eexists. split; [reflexivity|]. split; [apply Rg_stay; assumption|].
-    destruct (stc_frame t (v_x v) (v_y v)) as (_ & _ & Fr & Fi & Fp & _). auto.
-  - destruct (v_y v =? v_top v) eqn:C2.
-    + destruct (scroll_down_Rg t v H) as (t1 & E1 & H1 & Fr1 & Fi1 & Fp1). rewrite E1. cbn [bind].
-      eexists. split; [reflexivity|].
-      destruct (stc_frame t1 (v_x v) (v_y v)) as (_ & _ & Fr & Fi & Fp & _).
-      split; [|rewrite Fr, Fi, Fp; auto].
-      apply (Rg_stay t1 (scroll_down v) H1).
-    + replace (0 <? v_y v) with true by lia.
-      eexists. split; [reflexivity|].
-      destruct (stc_frame t (v_x v) (v_y v - 1)) as (_ & _ & Fr & Fi & Fp & _).
-      split; [|auto].
-      pose proof (Rg_move t v (v_x v) (v_y v - 1) (v_pend v) H) as M. rewrite !clamp_in in M by lia. exact M.
-Qed.
-
-Lemma pc_lf s : m_display_ctrl (modes s) = false ->
-  process_char s [10] = bind (linefeed s false) (fun s' => if m_lfnl (modes s') then Ok (carriage_return s') else Ok s').
-Proof. intros Hd. unfold process_char. destruct (cur s). cbv zeta. rewrite Hd. reflexivity. Qed.
-
-Lemma index_pend v : v_pend (index v) = v_pend v /\ (v_pend v = false -> True).
-Proof. unfold index, scroll_up. split_ifs; cbn; auto. Qed.
-
-Lemma index_xw v : v_x (index v) = v_x v /\ v_w (index v) = v_w v.
-Proof. unfold index, scroll_up. split_ifs; cbn; auto. Qed.
-
-Lemma sim_lf s v : R s v -> ambiguous v CLf = false ->
-  exists s', addbytes s (enc_cmd CLf) = Ok s' /\ R s' (exec v CLf).
-Proof.
-  intros HR Ha. pose proof (R_idle s v HR) as [He Hp Hu Hd Hm]. destruct HR as (H0 & _).
-  cbn [enc_cmd exec ambiguous] in *. rewrite addbytes_1. rewrite addbyte_ascii by (auto; lia). rewrite pc_lf by assumption.
-  destruct (linefeed_Rg s v (R0_Rg s v H0)) as (s1 & E & H1 & Fr & Fi & Fp). rewrite E. cbn [bind].
-  rewrite (g_modes s1 _ H1). cbn [m_lfnl modes0].
-  eexists. split; [reflexivity|]. split; [|split; congruence].
-  destruct (index_pend v) as [P1 _]. destruct (index_xw v) as [X1 X2].
-  apply Rg_R0; [exact H1|rewrite Fr, P1; apply (r_pend s v H0)|rewrite P1, Ha; discriminate].
-Qed.
-
-Lemma R_leave2 t v : R0 t v -> R (leave_escape t) v.
-Proof.
-  intros H. split; [|split; reflexivity]. eapply R0_parser; [eassumption|..]; try reflexivity. repeat split.
-Qed.
-
-Lemma sim_ri s v : R s v -> ambiguous v CRi = false ->
-  exists s', addbytes s (enc_cmd CRi) = Ok s' /\ R s' (exec v CRi).
-Proof.
-  intros HR Ha. pose proof (R_idle s v HR) as [He Hp Hu Hd Hm]. destruct HR as (H0 & _).
-  cbn [enc_cmd ambiguous] in *. cbn [addbytes].
-  rewrite addbyte_ascii by (auto; lia).
-  assert (process_char s [27] = Ok (with_inesc s true)) as E1.
-  { unfold process_char. destruct (cur s). cbv zeta. rewrite Hp. reflexivity. }
-  rewrite E1. cbn [bind]. set (s1 := with_inesc s true).
-  assert (R0 s1 v) as H1 by (eapply R0_parser; [exact H0|..]; try reflexivity; repeat split).
-  rewrite addbyte_ascii by (auto; lia).
-  rewrite process_char_plain by (auto; unfold plain_byte; lia).
-  change (inesc s1) with true. cbv iota.
-  assert (parse_escape s1 [77] = bind (linefeed s1 true) (fun s' => Ok (leave_escape s'))) as E2.
-  { unfold parse_escape. cbv zeta. change (pstate s1) with (pstate s). rewrite Hp. reflexivity. }
-  rewrite E2.
-  destruct (rlinefeed_Rg s1 v (R0_Rg s1 v H1)) as (s2 & E & H2 & Fr & Fi & Fp). rewrite E. cbn [bind].
-  eexists. split; [reflexivity|]. apply R_leave2.
-  assert (v_pend (exec v CRi) = v_pend v) as P1 by (cbn [exec]; unfold scroll_down; split_ifs; reflexivity).
-  apply Rg_R0; [exact H2|rewrite Fr, P1; apply (r_pend s1 v H1)|rewrite P1, Ha; discriminate].
-Qed.
-
-(* ---------- printable characters ---------- *)
-Lemma scroll_up_xy v x y p : scroll_up (with_xy v x y p) = with_xy (scroll_up v) x y p.
-Proof. destruct v. reflexivity. Qed.
-
-Lemma put_ref_fields v ch :
-  v_w (put_ref v ch) = v_w v /\ v_h (put_ref v ch) = v_h v /\ v_x (put_ref v ch) = v_x v /\ v_y (put_ref v ch) = v_y v.
-Proof. unfold put_ref. cbv zeta. repeat split; reflexivity. Qed.
-
-Lemma exec_ch v ch :
-  exec v (CCh ch) =
-  (let v0 := if v_pend v then index (with_xy v 0 (v_y v) false) else v in
-   if v_x v0 =? v_w v - 1 then with_xy (put_ref v0 ch) (v_x v0) (v_y v0) true
-   else with_xy (put_ref v0 ch) (v_x v0 + 1) (v_y v0) false).
-Proof. reflexivity. Qed.
-
-Lemma sim_ch s v ch : R s v -> 32 <= ch <= 126 ->
-  exists s', addbytes s (enc_cmd (CCh ch)) = Ok s' /\ R s' (exec v (CCh ch)).
-Proof.
-  intros HR Hc. pose proof (R_idle s v HR) as [He Hp Hu Hd Hm]. destruct HR as (H0 & _).
-  pose proof (R0_bounds s v H0) as B. pose proof H0 as [].
-  cbn [enc_cmd]. rewrite addbytes_1. rewrite addbyte_ascii by (auto; lia).
-  rewrite process_char_plain by (auto; unfold plain_byte; lia). rewrite He.
-  rewrite exec_ch. cbv zeta.
-  unfold push_cursor. rewrite r_cur0. rewrite r_modes0. cbn [m_autowrap modes0]. rewrite r_w0, r_pend0.
-  destruct (v_pend v) eqn:P.
-  - (* a pending wrap is performed first *)
-    specialize (r_pendx0 eq_refl).
-    cbn [negb]. rewrite andb_false_r. cbv zeta.
-    replace ((v_w v <=? v_x v + 1) && true) with true by lia.
-    rewrite r_bot0, r_h0.
-    set (v1 := index (with_xy v 0 (v_y v) false)).
-    assert (exists t1 y', (do s' <- (if v_y v =? v_bot v then scroll s false else Ok s);
-                           Ok (set_term_cursor s' 0 (if v_y v =? v_bot v then v_y v else if v_y v <? v_h v - 1 then v_y v + 1 else v_y v),
-                               1, (if v_y v =? v_bot v then v_y v else if v_y v <? v_h v - 1 then v_y v + 1 else v_y v)))
-                          = Ok (t1, 1, y') /\ Rg t1 v1 /\ y' = v_y v1 /\ rotten t1 = true /\ inesc t1 = false /\ pstate t1 = 0)
-      as (t1 & y' & E1 & H1 & Ey & Fr1 & Fi1 & Fp1).
-    { subst v1. unfold index. cbn [with_xy v_y v_bot v_h v_x v_pend].
-      destruct (v_y v =? v_bot v) eqn:C2.
-      - destruct (scroll_up_Rg s v (R0_Rg s v H0)) as (t0 & E0 & G0 & Fr0 & Fi0 & Fp0). rewrite E0. cbn [bind].
-        eexists _, _. split; [reflexivity|].
-        destruct (stc_frame t0 0 (v_y v)) as (_ & _ & Fr & Fi & Fp & _).
-        rewrite scroll_up_xy. split; [|split; [reflexivity|rewrite Fr, Fi, Fp; repeat split; congruence]].
-        pose proof (Rg_move t0 (scroll_up v) 0 (v_y v) false G0) as M.
-        change (v_w (scroll_up v)) with (v_w v) in M. change (v_h (scroll_up v)) with (v_h v) in M.
-        rewrite !clamp_in in M by lia. exact M.
-      - cbn [bind]. destruct (v_y v <? v_h v - 1) eqn:C3.
-        + eexists _, _. split; [reflexivity|].
-          destruct (stc_frame s 0 (v_y v + 1)) as (_ & _ & Fr & Fi & Fp & _).
-          split; [|split; [reflexivity|rewrite Fr, Fi, Fp; repeat split; congruence]].
-          pose proof (Rg_move s v 0 (v_y v + 1) false (R0_Rg s v H0)) as M. rewrite !clamp_in in M by lia. exact M.
-        + eexists _, _. split; [reflexivity|].
-          destruct (stc_frame s 0 (v_y v)) as (_ & _ & Fr & Fi & Fp & _).
-          split; [|split; [reflexivity|rewrite Fr, Fi, Fp; repeat split; congruence]].
-          pose proof (Rg_move s v 0 (v_y v) false (R0_Rg s v H0)) as M. rewrite !clamp_in in M by lia. exact M. }
-    rewrite E1. cbn [bind].
-    assert (v_w v1 = v_w v /\ v_h v1 = v_h v /\ v_x v1 = 0 /\ 0 <= v_y v1 < v_h v) as (W1 & Hh1 & X1 & Y1).
-    { pose proof (Rg_bounds t1 v1 H1) as B1. subst v1. unfold index, scroll_up in *. cbn [with_xy v_y v_bot v_h v_x v_w] in *.
-      split_ifs; cbn [v_w v_h v_x v_y with_xy] in *; repeat split; lia. }
-    destruct (push_char_Rg t1 v1 ch 1 y' (v_w v <=? 1) H1) as (t2 & E2 & H2 & Fr2 & Fi2 & Fp2).
-    rewrite E2. cbn [bind]. eexists. split; [reflexivity|].
-    change (width t2) with (width t2).
-    assert (width t2 = v_w v) as W2.
-    { rewrite (g_w t2 _ H2). cbn [with_xy v_w]. destruct (put_ref_fields v1 ch) as (Q & _). rewrite Q. exact W1. }
-    rewrite W2. rewrite X1.
-    split; [|split; [cbn; congruence|cbn; congruence]].
-    apply Rg_R0.
-    + apply Rg_rotten.
-      rewrite W1, Hh1 in H2. rewrite Ey in H2. rewrite (clamp_in (v_y v1)) in H2 by lia.
-      unfold clamp in H2.
-      destruct (0 =? v_w v - 1) eqn:C4.
-      * replace (v_w v <=? 1) with true in H2 by lia. replace (v_w v - 1) with 0 in H2 by lia. exact H2.
-      * replace (v_w v <=? 1) with false in H2 by lia. replace (1 <? 0) with false in H2 by reflexivity.
-        eapply Rg_pend. exact H2.
-    + cbn [rotten with_rotten]. destruct (0 =? v_w v - 1) eqn:C4; cbn [with_xy v_pend]; lia.
-    + destruct (0 =? v_w v - 1) eqn:C4; cbn [with_xy v_pend v_x v_w]; [|discriminate].
-      intros _. destruct (put_ref_fields v1 ch) as (Q & _). rewrite Q, W1. lia.
-  - (* no pending wrap *)
-    cbn [negb]. rewrite andb_true_r, andb_false_r.
-    destruct (v_w v <=? v_x v + 1) eqn:C1.
-    + (* last column: the character goes there and the wrap becomes pending *)
-      replace (v_x v =? v_w v - 1) with true by lia.
-      destruct (push_char_Rg (with_rotten s true) v ch (v_x v) (v_y v) true (Rg_rotten s v true (R0_Rg s v H0)))
-        as (t2 & E2 & H2 & Fr2 & Fi2 & Fp2).
-      rewrite E2. eexists. split; [reflexivity|].
-      split; [|split; [rewrite Fi2; exact He|rewrite Fp2; exact Hp]].
-      rewrite !clamp_in in H2 by lia.
-      apply Rg_R0; [exact H2|rewrite Fr2; reflexivity|].
-      intros _. cbn [with_xy v_x v_w]. destruct (put_ref_fields v ch) as (Q & _). rewrite Q. lia.
-    + replace (v_x v =? v_w v - 1) with false by lia. cbv zeta. cbn [bind].
-      destruct (push_char_Rg s v ch (v_x v + 1) (v_y v) false (R0_Rg s v H0)) as (t2 & E2 & H2 & Fr2 & Fi2 & Fp2).
-      rewrite E2. cbn [bind]. eexists. split; [reflexivity|].
-      split; [|split; [cbn; congruence|cbn; congruence]].
-      rewrite !clamp_in in H2 by lia.
-      assert (width t2 = v_w v) as W2.
-      { rewrite (g_w t2 _ H2). cbn [with_xy v_w]. destruct (put_ref_fields v ch) as (Q & _). exact Q. }
-      rewrite W2. replace (v_w v <=? v_x v + 1) with false by lia.
-      apply Rg_R0; [|reflexivity|discriminate].
-      apply Rg_rotten. exact H2.
-Qed.
-
-(* ---------- erasing ---------- *)
-Lemma set_range_n_eq n : forall (r : row) x v, 0 <= x -> x + Z.of_nat n <= zlen r ->
-  set_range_n n r x v = Ok (takez x r ++ repeat v n ++ dropz (x + Z.of_nat n) r).
-Proof.
-  induction n; intros r x v Hx Hl.
-  - cbn [set_range_n repeat app]. replace (x + Z.of_nat 0) with x by lia. rewrite takez_dropz. reflexivity.
-  - cbn [set_range_n]. rewrite set_index_eq by lia. cbn [bind].
-    rewrite IHn; [|lia|rewrite zlen_upd; lia].
-    rewrite takez_upd by lia. replace (x + 1 + Z.of_nat n) with (x + 1 + Z.of_nat n) by lia.
-    rewrite dropz_upd by lia. rewrite <- app_assoc. cbn [app repeat].
-    replace (x + Z.of_nat (S n)) with (x + 1 + Z.of_nat n) by lia. reflexivity.
-Qed.
-
-Definition erased_row (t : st) (y a b : Z) : row :=
-  let r := rowz (term t) y in takez a r ++ repeatz (empty_char t [32]) (b - a) ++ dropz b r.
-
-Lemma set_cells_eq t y a b :
-  Inv t -> 0 <= y < height t -> 0 <= a < b -> b <= width t ->
-  set_cells t y a b = Ok (with_term t (takez y (term t) ++ erased_row t y a b :: dropz (y + 1) (term t))).
-Proof.
-  intros I Hy Ha Hb. unfold set_cells. replace (b <=? a) with false by lia.
-  pose proof (i_rows t I) as Lt.
-  destruct (nthz_some (term t) y ltac:(lia)) as (r & Er & _).
-  assert (rowz (term t) y = r) as Rr by (unfold rowz; rewrite Er; reflexivity).
-  pose proof (rowz_len t y I Hy) as Lr. rewrite Rr in Lr.
-  assert (0 <= y) as Hy0 by lia. rewrite (get_index_nthz _ _ _ Hy0 Er). cbn [bind].
-  unfold set_range. rewrite set_range_n_eq by lia. cbn [bind].
-  rewrite set_index_eq by lia. cbn [bind].
-  unfold erased_row, repeatz. cbv zeta. rewrite Rr. replace (a + Z.of_nat (Z.to_nat (b - a))) with b by lia. reflexivity.
-Qed.
-
-Lemma erased_row_rel t v y a b :
-  Rg t v -> 0 <= y < v_h v ->
-  Forall2 cell_rel (erased_row t y a b) (let r := nth_row (v_g v) y in takez a r ++ blanks (b - a) ++ dropz b r).
-Proof.
-  intros H Hy. pose proof H as []. unfold erased_row. cbv zeta.
-  destruct (rowz_rel (term t) (v_g v) y g_grid0) as (_ & _ & Rr); [rewrite (i_rows t g_inv0), g_h0; lia|].
-  apply Forall2_app; [apply Forall2_takez; exact Rr|].
-  apply Forall2_app; [apply blank_rel|apply Forall2_dropz; exact Rr].
-Qed.
-
-(* same state except the grid *)
-Lemma Rg_with_term t v T g1 :
-  Rg t v -> Inv (with_term t T) -> grid_rel T g1 -> Rg (with_term t T) (with_g v g1).
-Proof. intros H I G. eapply Rg_upd; [exact H|exact I|..]; try reflexivity. exact G. Qed.
-
-Lemma set_cells_Rg t v y a b :
-  Rg t v -> 0 <= y < v_h v -> 0 <= a < b -> b <= v_w v ->
-  exists T, set_cells t y a b = Ok (with_term t T) /\ Rg (with_term t T) (erase_cells v y a b).
-Proof.
-  intros H Hy Ha Hb. pose proof H as [].
-  pose proof (set_cells_Keeps t y a b g_inv0 ltac:(lia) ltac:(lia) ltac:(lia)) as Kp.
-  rewrite set_cells_eq in * by (auto; lia). apply K_Inv in Kp.
-  eexists. split; [reflexivity|]. unfold erase_cells. cbv zeta.
-  apply Rg_with_term; [assumption|exact Kp|].
-  apply grid_set_row; [assumption|]. apply (erased_row_rel t v y a b H Hy).
-Qed.
-
-Lemma blank_line_Rg t v y :
-  Rg t v -> 0 <= y < v_h v ->
-  exists T, blank_line t y = Ok (with_term t T) /\ Rg (with_term t T) (erase_cells v y 0 (v_w v)).
-Proof.
-  intros H Hy. pose proof (Rg_bounds t v H) as B. pose proof H as [].
-  pose proof (blank_line_Keeps t y g_inv0 ltac:(lia)) as Kp.
-  unfold blank_line in *. rewrite set_index_eq in * by (rewrite (i_rows t g_inv0); lia). cbn [bind] in *. apply K_Inv in Kp.
-  eexists. split; [reflexivity|]. unfold erase_cells. cbv zeta.
-  apply Rg_with_term; [assumption|exact Kp|].
-  apply grid_set_row; [assumption|].
-  destruct (rowz_rel (term t) (v_g v) y g_grid0) as (_ & N2 & Rr); [rewrite (i_rows t g_inv0), g_h0; lia|].
-  pose proof (Forall2_zlen _ _ _ Rr) as Lr. rewrite (rowz_len t y g_inv0 ltac:(lia)) in Lr.
-  rewrite takez_nonpos by lia. rewrite (dropz_all' (nth_row (v_g v) y)) by lia. rewrite app_nil_r. cbn [app].
-  replace (v_w v - 0) with (v_w v) by lia. apply (blank_line_rel t v H).
-Qed.
-
-Lemma cd_erase X args q c :
-  csi_dispatch X c args q =
-  (if c =? 75 then csi_erase_line X (arg args 0)
-   else if c =? 74 then csi_erase_display X (arg args 0)
-   else csi_dispatch X c args q).
-Proof.
-  destruct (c =? 75) eqn:E1; [apply Z.eqb_eq in E1; subst; unfold csi_dispatch; destruct (cur X); reflexivity|].
-  destruct (c =? 74) eqn:E2; [apply Z.eqb_eq in E2; subst; unfold csi_dispatch; destruct (cur X); reflexivity|].
-  reflexivity.
-Qed.
-
-Lemma erase_eq t v p q :
-  Rg t v ->
-  erase t p q =
-  (let sx := clamp (fst p) (v_w v) in let sy := clamp (snd p) (v_h v) in
-   let ex := clamp (fst q) (v_w v) in let ey := clamp (snd q) (v_h v) in
-   if sy =? ey then set_cells t sy sx (ex + 1)
-   else VTerm.erase_rows (Z.to_nat (ey - sy + 1)) t sy sx sy ex ey).
-Proof.
-  intros []. unfold erase. rewrite !constrain_plain1. rewrite g_w0, g_h0. reflexivity.
-Qed.
-
-(* from Rg of the result back to R0 when only the grid changed *)
-Lemma R0_grid X v T v' :
-  R0 X v -> Rg (with_term X T) v' -> v_pend v' = v_pend v -> v_x v' = v_x v -> v_w v' = v_w v ->
-  R0 (with_term X T) v'.
-Proof.
-  intros [] H P Ex Ew. apply Rg_R0; [exact H|cbn [rotten with_term]; congruence|]. rewrite P, Ex, Ew. assumption.
-Qed.
-
-Lemma sim_el s v m : R s v -> m <= 2 -> small m ->
-  exists s', addbytes s (enc_cmd (CEl m)) = Ok s' /\ R s' (exec v (CEl m)).
-Proof.
-  intros HR Hm Hs. cbn [enc_cmd].
-  eapply (sim_csi s v [m] 75 1 0 75); [assumption|repeat constructor; assumption|reflexivity|unfold plain_byte; lia|].
-  intros X HX. rewrite cd_erase. replace (75 =? 75) with true by reflexivity.
-  rewrite csi_args_1. cbn [arg nth]. rewrite dflt_zero.
-  pose proof (R0_bounds X v HX) as B. pose proof (R0_Rg X v HX) as G. pose proof HX as [].
-  unfold csi_erase_line. rewrite r_cur0. cbn [exec]. rewrite r_w0.
-  destruct (m <=? 0) eqn:C0.
-  - replace (Z.max m 0 =? 0) with true by lia.
-    rewrite (erase_eq X v _ _ G). cbn [fst snd]. cbv zeta. rewrite !clamp_in by lia.
-    replace (v_y v =? v_y v) with true by lia. replace (v_w v - 1 + 1) with (v_w v) by lia.
-    destruct (set_cells_Rg X v (v_y v) (v_x v) (v_w v) G) as (T & E & H'); try lia.
-    rewrite E. eexists. split; [reflexivity|]. apply (R0_grid X v T _ HX H'); reflexivity.
-  - replace (Z.max m 0 =? 0) with false by lia.
-    destruct (m =? 1) eqn:C1.
-    + replace (Z.max m 0 =? 1) with true by lia.
-      rewrite (erase_eq X v _ _ G). cbn [fst snd]. cbv zeta. rewrite !clamp_in by lia.
-      replace (v_y v =? v_y v) with true by lia.
-      destruct (set_cells_Rg X v (v_y v) 0 (v_x v + 1) G) as (T & E & H'); try lia.
-      rewrite E. eexists. split; [reflexivity|]. apply (R0_grid X v T _ HX H'); reflexivity.
-    + replace (Z.max m 0 =? 1) with false by lia. replace (m =? 2) with true by lia. replace (Z.max m 0 =? 2) with true by lia.
-      destruct (blank_line_Rg X v (v_y v) G) as (T & E & H'); try lia.
-      rewrite E. eexists. split; [reflexivity|]. apply (R0_grid X v T _ HX H'); reflexivity.
-Qed.
-
-(* ---------- erase in display: the row loop ---------- *)
-Definition erase_step (t : st) (y sx sy ex ey : Z) : result st :=
-  if y =? sy then set_cells t y sx (width t) else if y =? ey then set_cells t y 0 (ex + 1) else blank_line t y.
-
-Lemma erase_rows_S k t y sx sy ex ey :
-  VTerm.erase_rows (S k) t y sx sy ex ey = bind (erase_step t y sx sy ex ey) (fun s' => VTerm.erase_rows k s' (y + 1) sx sy ex ey).
-Proof. reflexivity. Qed.
-
-Lemma bind_assoc {A B C} (r : result A) (f : A -> result B) (g : B -> result C) :
-  bind (bind r f) g = bind r (fun a => bind (f a) g).
-Proof. destruct r; reflexivity. Qed.
-
-Lemma erase_rows_snoc n : forall t y sx sy ex ey,
-  VTerm.erase_rows (S n) t y sx sy ex ey =
-  bind (VTerm.erase_rows n t y sx sy ex ey) (fun t' => erase_step t' (y + Z.of_nat n) sx sy ex ey).
-Proof.
-  induction n; intros t y sx sy ex ey.
-  - rewrite erase_rows_S. cbn [VTerm.erase_rows bind]. replace (y + Z.of_nat 0) with y by lia.
-    destruct (erase_step t y sx sy ex ey); reflexivity.
-  - rewrite erase_rows_S. rewrite (erase_rows_S n). rewrite bind_assoc.
-    destruct (erase_step t y sx sy ex ey) as [s1|]; [|reflexivity]. cbn [bind].
-    rewrite IHn. replace (y + 1 + Z.of_nat n) with (y + Z.of_nat (S n)) by lia. reflexivity.
-Qed.
-
-Definition blankish (w : Z) (r : row) : Prop := Forall2 cell_rel r (blanks w).
-
-Lemma erase_step_full t y sx sy ex ey :
-  Inv t -> 0 <= y < height t -> (y = sy -> sx = 0) -> (y <> sy -> y = ey -> ex + 1 = width t) ->
-  exists row1, erase_step t y sx sy ex ey = Ok (with_term t (takez y (term t) ++ row1 :: dropz (y + 1) (term t))) /\
-               Inv (with_term t (takez y (term t) ++ row1 :: dropz (y + 1) (term t))) /\ blankish (width t) row1.
-Proof.
-  intros I Hy H1 H2. pose proof (i_w t I) as Hw. unfold erase_step.
-  assert (forall b, b = width t -> exists row1, set_cells t y 0 b = Ok (with_term t (takez y (term t) ++ row1 :: dropz (y + 1) (term t))) /\
-               Inv (with_term t (takez y (term t) ++ row1 :: dropz (y + 1) (term t))) /\ blankish (width t) row1) as Hfull.
-  { intros b ->. pose proof (set_cells_Keeps t y 0 (width t) I Hy ltac:(lia) ltac:(lia)) as Kp.
-    rewrite set_cells_eq in * by (auto; lia). apply K_Inv in Kp.
-    eexists. split; [reflexivity|]. split; [exact Kp|].
-    unfold blankish, erased_row. cbv zeta. pose proof (rowz_len t y I Hy) as Lr.
-    rewrite takez_nonpos by lia. rewrite (dropz_all' (rowz (term t) y)) by lia. rewrite app_nil_r. cbn [app].
-    replace (width t - 0) with (width t) by lia. apply blank_rel. }
-  destruct (y =? sy) eqn:C1.
-  - rewrite (H1 ltac:(lia)). apply Hfull. reflexivity.
-  - destruct (y =? ey) eqn:C2.
-    + apply Hfull. apply H2; lia.
-    + pose proof (blank_line_Keeps t y I Hy) as Kp. unfold blank_line in *.
-      rewrite set_index_eq in * by (rewrite (i_rows t I); lia). cbn [bind] in *. apply K_Inv in Kp.
-      eexists. split; [reflexivity|]. split; [exact Kp|]. unfold blankish, empty_line. apply blank_rel.
-Qed.
-
-Lemma erase_rows_full n : forall t y0 sx sy ex ey,
-  Inv t -> 0 <= y0 -> y0 + Z.of_nat n <= height t ->
-  (forall yy, y0 <= yy < y0 + Z.of_nat n -> (yy = sy -> sx = 0) /\ (yy <> sy -> yy = ey -> ex + 1 = width t)) ->
-  exists rows', VTerm.erase_rows n t y0 sx sy ex ey =
-                  Ok (with_term t (takez y0 (term t) ++ rows' ++ dropz (y0 + Z.of_nat n) (term t))) /\
-                Inv (with_term t (takez y0 (term t) ++ rows' ++ dropz (y0 + Z.of_nat n) (term t))) /\
-                length rows' = n /\ Forall (blankish (width t)) rows'.
-Proof.
-  induction n; intros t y0 sx sy ex ey I Hy Hn Hf.
-  - exists []. cbn [VTerm.erase_rows app length]. replace (y0 + Z.of_nat 0) with y0 by lia. rewrite takez_dropz.
-    assert (with_term t (term t) = t) as E by (destruct t; reflexivity). rewrite E. auto.
-  - rewrite erase_rows_S.
-    destruct (Hf y0 ltac:(lia)) as (F1 & F2).
-    destruct (erase_step_full t y0 sx sy ex ey I ltac:(lia) F1 F2) as (row1 & E1 & I1 & B1).
-    rewrite E1. cbn [bind]. set (T1 := takez y0 (term t) ++ row1 :: dropz (y0 + 1) (term t)) in *.
-    destruct (IHn (with_term t T1) (y0 + 1) sx sy ex ey I1 ltac:(lia) ltac:(cbn [height with_term]; lia)) as (rows2 & E2 & I2 & L2 & B2).
-    { intros yy Hyy. cbn [width with_term]. apply Hf. lia. }
-    exists (row1 :: rows2). pose proof (i_rows t I) as Lt.
-    cbn [term with_term width] in E2, I2, B2.
-    assert (takez (y0 + 1) T1 ++ rows2 ++ dropz (y0 + 1 + Z.of_nat n) T1
-            = takez y0 (term t) ++ (row1 :: rows2) ++ dropz (y0 + Z.of_nat (S n)) (term t)) as ET.
-    { subst T1. rewrite takez_upd by lia. rewrite dropz_upd by lia. rewrite <- app_assoc. cbn [app].
-      replace (y0 + 1 + Z.of_nat n) with (y0 + Z.of_nat (S n)) by lia. reflexivity. }
-    rewrite ET in E2, I2. split; [exact E2|]. split; [exact I2|]. split; [cbn [length]; lia|]. constructor; assumption.
-Qed.
-
-Lemma blank_rows_rel w rows' : Forall (blankish w) rows' -> Forall2 (Forall2 cell_rel) rows' (blank_rows w (Z.of_nat (length rows'))).
-Proof.
-  intros H. unfold blank_rows. rewrite Nat2Z.id. apply Forall2_repeat_r. exact H.
-Qed.
-
-Lemma with_term_id t : with_term t (term t) = t.
-Proof. destruct t; reflexivity. Qed.
-
-Lemma sim_ed s v m : R s v -> m <= 2 -> small m ->
-  exists s', addbytes s (enc_cmd (CEd m)) = Ok s' /\ R s' (exec v (CEd m)).
-Proof.
-  intros HR Hm Hs. cbn [enc_cmd].
-  eapply (sim_csi s v [m] 74 1 0 74); [assumption|repeat constructor; assumption|reflexivity|unfold plain_byte; lia|].
-  intros X HX. rewrite cd_erase. replace (74 =? 75) with false by reflexivity. replace (74 =? 74) with true by reflexivity.
-  rewrite csi_args_1. cbn [arg nth]. rewrite dflt_zero.
-  pose proof (R0_bounds X v HX) as B. pose proof (R0_Rg X v HX) as G. pose proof HX as [].
-  pose proof (Rg_bounds X v G) as (_ & _ & _ & _ & _ & _ & _ & Lg).
-  pose proof (i_rows X r_inv0) as Lt.
-  unfold csi_erase_display. cbn [exec].
-  destruct (m <=? 0) eqn:C0.
-  - (* from the cursor to the end of the display *)
-    replace (Z.max m 0 =? 0) with true by lia. replace (Z.max m 0 =? 1) with false by lia.
-    replace (Z.max m 0 =? 2) with false by lia.
-    rewrite (erase_eq X v _ _ G). rewrite r_cur0, r_w0, r_h0. cbn [fst snd]. cbv zeta. rewrite !clamp_in by lia.
-    replace (v_w v - 1 + 1) with (v_w v) by lia.
-    destruct (set_cells_Rg X v (v_y v) (v_x v) (v_w v) G) as (T1 & E1 & H1); try lia.
-    set (v1 := erase_cells v (v_y v) (v_x v) (v_w v)) in *.
-    pose proof (Rg_bounds _ v1 H1) as (_ & _ & _ & _ & _ & _ & _ & Lg1). change (v_h v1) with (v_h v) in Lg1.
-    destruct (v_y v =? v_h v - 1) eqn:C1.
-    + rewrite E1. cbn [bind]. eexists. split; [reflexivity|].
-      apply (R0_grid X v T1 _ HX); try reflexivity.
-      unfold VT100Ref.erase_rows. replace (v_y v + 1) with (v_h v) by lia.
-      apply (Rg_with_term (with_term X T1) v1 T1 _ H1); [apply H1|].
-      rewrite (takez_all' (v_g v1)) by lia. rewrite (dropz_all' (v_g v1)) by lia.
-      replace (v_h v - v_h v) with 0 by lia. cbn [blank_rows repeat app]. rewrite app_nil_r. apply H1.
-    + replace (Z.to_nat (v_h v - 1 - v_y v + 1)) with (S (Z.to_nat (v_h v - 1 - v_y v))) by lia.
-      rewrite erase_rows_S. unfold erase_step. replace (v_y v =? v_y v) with true by lia. rewrite r_w0. rewrite E1. cbn [bind].
-      set (t1 := with_term X T1) in *. set (k := Z.to_nat (v_h v - 1 - v_y v)).
-      destruct (erase_rows_full k t1 (v_y v + 1) (v_x v) (v_y v) (v_w v - 1) (v_h v - 1) (g_inv _ _ H1))
-        as (rows' & E2 & I2 & L2 & B2); [lia|cbn [height t1 with_term]; lia| |].
-      { intros yy Hyy. split; [lia|]. intros _ _. cbn [width t1 with_term]. lia. }
-      rewrite E2. cbn [bind]. eexists. split; [reflexivity|].
-      apply (R0_grid X v _ _ HX); try reflexivity.
-      unfold VT100Ref.erase_rows. apply (Rg_with_term t1 v1 _ _ H1 I2).
-      cbn [term t1 with_term].
-      replace (v_y v + 1 + Z.of_nat k) with (v_h v) by lia.
-      apply Forall2_app; [apply Forall2_takez; apply H1|].
-      apply Forall2_app; [|apply Forall2_dropz; apply H1].
-      replace (v_h v - (v_y v + 1)) with (Z.of_nat (length rows')) by lia.
-      apply blank_rows_rel. cbn [width t1 with_term] in B2. rewrite r_w0 in B2. exact B2.
-  - replace (Z.max m 0 =? 0) with false by lia. cbn [bind].
-    destruct (m =? 1) eqn:C1.
-    + (* from the start of the display through the cursor *)
-      replace (Z.max m 0 =? 1) with true by lia.
-      rewrite (erase_eq X v _ _ G). rewrite r_cur0. cbn [fst snd]. cbv zeta. rewrite !clamp_in by lia.
-      destruct (0 =? v_y v) eqn:C2.
-      * replace (v_y v) with 0 by lia.
-        destruct (set_cells_Rg X v 0 0 (v_x v + 1) G) as (T1 & E1 & H1); try lia.
-        rewrite E1. eexists. split; [reflexivity|].
-        apply (R0_grid X v T1 _ HX); try reflexivity.
-        replace (v_y v) with 0 in H1 by lia. exact H1.
-      * replace (Z.to_nat (v_y v - 0 + 1)) with (S (Z.to_nat (v_y v))) by lia.
-        rewrite erase_rows_snoc. set (k := Z.to_nat (v_y v)).
-        destruct (erase_rows_full k X 0 0 0 (v_x v) (v_y v) r_inv0) as (rows' & E2 & I2 & L2 & B2); [lia|lia| |].
-        { intros yy Hyy. split; [reflexivity|]. intros _ Hy. lia. }
-        rewrite E2. cbn [bind]. set (T1 := takez 0 (term X) ++ rows' ++ dropz (0 + Z.of_nat k) (term X)) in *.
-        set (t1 := with_term X T1) in *.
-        assert (Rg t1 (VT100Ref.erase_rows v 0 (v_y v))) as H1.
-        { unfold VT100Ref.erase_rows. apply Rg_with_term; [exact G|exact I2|]. subst T1.
-          replace (0 + Z.of_nat k) with (v_y v) by lia.
-          apply Forall2_app; [apply Forall2_takez; exact r_grid0|].
-          apply Forall2_app; [|apply Forall2_dropz; exact r_grid0].
-          replace (v_y v - 0) with (Z.of_nat (length rows')) by lia.
-          apply blank_rows_rel. rewrite r_w0 in B2. exact B2. }
-        unfold erase_step. replace (0 + Z.of_nat k) with (v_y v) by lia.
-        replace (v_y v =? 0) with false by lia. replace (v_y v =? v_y v) with true by lia.
-        destruct (set_cells_Rg t1 _ (v_y v) 0 (v_x v + 1) H1) as (T2 & E3 & H3); cbn [VT100Ref.erase_rows with_g v_h v_w]; try lia.
-        rewrite E3. eexists. split; [reflexivity|].
-        change (with_term t1 T2) with (with_term X T2) in *.
-        apply (R0_grid X v T2 _ HX H3); reflexivity.
-    + replace (Z.max m 0 =? 1) with false by lia. replace (m =? 2) with true by lia. replace (Z.max m 0 =? 2) with true by lia.
-      (* the whole display; the cursor stays *)
-      eexists. split; [reflexivity|].
-      unfold clear. rewrite r_cur0.
-      set (T1 := repeatz (empty_line X [32]) (height X)).
-      assert (Rg (with_term X T1) (VT100Ref.erase_rows v 0 (v_h v))) as H1.
-      { pose proof (clear_K X (Some (cur X)) r_inv0) as Kc. unfold VT100Ref.erase_rows.
-        apply Rg_with_term; [exact G| |].
-        - apply with_term_K; [assumption|]. subst T1. split; [apply zlen_repeatz; lia|].
-          apply Forall_repeat. apply zlen_empty_line. lia.
-        - subst T1. rewrite takez_nonpos by lia. rewrite (dropz_all' (v_g v)) by lia. rewrite app_nil_r. cbn [app].
-          unfold blank_rows, repeatz. rewrite r_h0. replace (v_h v - 0) with (v_h v) by lia.
-          apply Forall2_repeat'. apply (blank_line_rel X v G). }
-      pose proof (Rg_stay _ _ H1) as H2. cbn [VT100Ref.erase_rows with_g v_x v_y] in H2.
-      destruct (stc_frame (with_term X T1) (v_x v) (v_y v)) as (_ & _ & Fr & _).
-      apply Rg_R0; [exact H2|rewrite Fr; exact r_pend0|exact r_pendx0].
-Qed.
-
-(* ---------- insert / delete characters ---------- *)
-Lemma iter_succ_r {A} (f : A -> A) k x : Nat.iter k f (f x) = Nat.iter (S k) f x.
-Proof. induction k; [reflexivity|]. change (Nat.iter (S k) f (f x)) with (f (Nat.iter k f (f x))). rewrite IHk. reflexivity. Qed.
-
-Lemma ich_iter (e : cell) k : forall (A C : list row) (p s : row), 0 < zlen s ->
-  iter_res k (fun t => do r <- get_index t (zlen A); do q <- pop (insert r (zlen p) e) (-1); set_index t (zlen A) (snd q))
-           (A ++ (p ++ s) :: C)
-  = Ok (A ++ (p ++ Nat.iter k (shr e) s) :: C).
-Proof.
-  induction k; intros A C p s Hs; [reflexivity|].
-  cbn [iter_res]. rewrite get_mid. cbn [bind].
-  destruct (ich_step p s e Hs) as (x0 & E). unfold row, cell in *. rewrite E. cbn [bind snd]. rewrite set_mid. cbn [bind].
-  rewrite IHk by (rewrite zlen_shr; assumption). rewrite iter_succ_r. reflexivity.
-Qed.
-
-Lemma dch_iter (e : cell) k : forall (A C : list row) (p s : row), 0 < zlen s ->
-  iter_res k (fun t => do r <- get_index t (zlen A); do q <- pop r (zlen p); set_index t (zlen A) (snd q ++ [e]))
-           (A ++ (p ++ s) :: C)
-  = Ok (A ++ (p ++ Nat.iter k (shl e) s) :: C).
-Proof.
-  induction k; intros A C p s Hs; [reflexivity|].
-  cbn [iter_res]. rewrite get_mid. cbn [bind].
-  destruct (dch_step p s Hs) as (x0 & E). unfold row, cell in *. rewrite E. cbn [bind snd]. rewrite set_mid. cbn [bind].
-  rewrite <- app_assoc. change (dropz 1 s ++ [e]) with (shl e s).
-  rewrite IHk by (rewrite zlen_shl; assumption). rewrite iter_succ_r. reflexivity.
-Qed.
-
-Lemma ich_iter' (e : cell) k (A C : list row) (p s : row) x y : x = zlen p -> y = zlen A -> 0 < zlen s ->
-  iter_res k (fun t => do r <- get_index t y; do q <- pop (insert r x e) (-1); set_index t y (snd q)) (A ++ (p ++ s) :: C)
-  = Ok (A ++ (p ++ Nat.iter k (shr e) s) :: C).
-Proof. intros -> ->. apply ich_iter. Qed.
-
-Lemma dch_iter' (e : cell) k (A C : list row) (p s : row) x y : x = zlen p -> y = zlen A -> 0 < zlen s ->
-  iter_res k (fun t => do r <- get_index t y; do q <- pop r x; set_index t y (snd q ++ [e])) (A ++ (p ++ s) :: C)
-  = Ok (A ++ (p ++ Nat.iter k (shl e) s) :: C).
-Proof. intros -> ->. apply dch_iter. Qed.
-
-(* the cursor row split at the cursor *)
-Lemma cursor_split t v :
-  Rg t v ->
-  let T := term t in let r := rowz T (v_y v) in
-  T = takez (v_y v) T ++ (takez (v_x v) r ++ dropz (v_x v) r) :: dropz (v_y v + 1) T /\
-  zlen (takez (v_y v) T) = v_y v /\ zlen (takez (v_x v) r) = v_x v /\ zlen (dropz (v_x v) r) = v_w v - v_x v /\
-  Forall2 cell_rel r (nth_row (v_g v) (v_y v)).
-Proof.
-  intros H. cbv zeta. pose proof (Rg_bounds t v H) as B. pose proof H as [].
-  assert (0 <= v_y v < zlen (term t)) as Hy by (rewrite (i_rows t g_inv0), g_h0; lia).
-  destruct (rowz_rel (term t) (v_g v) (v_y v) g_grid0 Hy) as (N1 & _ & Rr).
-  pose proof (rowz_len t (v_y v) g_inv0 ltac:(lia)) as Lr.
-  rewrite takez_dropz. split; [apply split_at; exact N1|].
-  rewrite !zlen_takez, zlen_dropz by lia. repeat split; try lia. exact Rr.
-Qed.
-
-Lemma cd_chars X args q c :
-  csi_dispatch X c args q =
-  (if c =? 64 then insert_chars X (cur X) (arg args 0) None
-   else if c =? 80 then remove_chars X (cur X) (arg args 0)
-   else if c =? 76 then insert_lines X (arg args 0)
-   else if c =? 77 then remove_lines X (arg args 0)
-   else csi_dispatch X c args q).
-Proof.
-  destruct (c =? 64) eqn:E1; [apply Z.eqb_eq in E1; subst; unfold csi_dispatch; destruct (cur X); reflexivity|].
-  destruct (c =? 80) eqn:E2; [apply Z.eqb_eq in E2; subst; unfold csi_dispatch; destruct (cur X); reflexivity|].
-  destruct (c =? 76) eqn:E3; [apply Z.eqb_eq in E3; subst; unfold csi_dispatch; destruct (cur X); reflexivity|].
-  destruct (c =? 77) eqn:E4; [apply Z.eqb_eq in E4; subst; unfold csi_dispatch; destruct (cur X); reflexivity|].
-  reflexivity.
-Qed.
-
-Lemma sim_ich s v n : R s v -> small n ->
-  exists s', addbytes s (enc_cmd (CIch n)) = Ok s' /\ R s' (exec v (CIch n)).
-Proof.
-  intros HR Hs. cbn [enc_cmd].
-  eapply (sim_csi s v [n] 64 1 1 64); [assumption|repeat constructor; assumption|reflexivity|unfold plain_byte; lia|].
-  intros X HX. rewrite cd_chars. replace (64 =? 64) with true by reflexivity.
-  rewrite csi_args_1. cbn [arg nth]. rewrite dflt_one.
-  pose proof (R0_bounds X v HX) as B. pose proof (R0_Rg X v HX) as G. pose proof HX as [].
-  assert (1 <= one n) as O1 by (unfold one; split_ifs; lia). set (a0 := one n) in *. rewrite r_cur0.
-  pose proof (insert_chars_Keeps X (cur X) a0 None r_inv0) as Kp.
-  rewrite r_cur0 in Kp. cbn [snd] in Kp. rewrite r_h0 in Kp. specialize (Kp ltac:(lia)).
-  destruct (cursor_split X v G) as (ET & LA & Lp & Ls & Rr). cbv zeta in ET, LA, Lp, Ls, Rr.
-  set (A := takez (v_y v) (term X)) in *. set (C := dropz (v_y v + 1) (term X)) in *.
-  set (r := rowz (term X) (v_y v)) in *. set (p := takez (v_x v) r) in *. set (sg := dropz (v_x v) r) in *.
-  assert (insert_chars X (v_x v, v_y v) a0 None
-          = Ok (with_term X (A ++ (p ++ Nat.iter (Z.to_nat (Z.min a0 (v_w v))) (shr (empty_char X [32])) sg) :: C))) as E.
-  { unfold insert_chars. replace (a0 =? 0) with false by lia. rewrite r_w0. rewrite ET.
-    rewrite (ich_iter' _ _ A C p sg (v_x v) (v_y v)) by (auto; lia). reflexivity. }
-  rewrite E in Kp |- *. apply K_Inv in Kp.
-  eexists. split; [reflexivity|]. cbn [exec].
-  apply (R0_grid X v _ _ HX); try reflexivity.
-  apply Rg_with_term; [exact G|exact Kp|].
-  subst A C. apply grid_set_row; [exact r_grid0|].
-  rewrite shr_iter by lia. rewrite Ls.
-  set (kk := Z.min a0 (v_w v - v_x v)).
-  replace (Nat.min (Z.to_nat (Z.min a0 (v_w v))) (Z.to_nat (v_w v - v_x v))) with (Z.to_nat kk) by lia.
-  subst p sg. apply Forall2_app; [apply Forall2_takez; exact Rr|].
-  apply Forall2_app.
-  - unfold blanks. apply Forall2_repeat'. split; [reflexivity|exact Logic.I].
-  - unfold sub. replace (v_w v - v_x v - Z.of_nat (Z.to_nat kk)) with (v_w v - kk - v_x v) by lia.
-    apply Forall2_takez. apply Forall2_dropz. exact Rr.
-Qed.
-
-Lemma sim_dch s v n : R s v -> small n ->
-  exists s', addbytes s (enc_cmd (CDch n)) = Ok s' /\ R s' (exec v (CDch n)).
-Proof.
-  intros HR Hs. cbn [enc_cmd].
-  eapply (sim_csi s v [n] 80 1 1 80); [assumption|repeat constructor; assumption|reflexivity|unfold plain_byte; lia|].
-  intros X HX. rewrite cd_chars. replace (80 =? 64) with false by reflexivity. replace (80 =? 80) with true by reflexivity.
-  rewrite csi_args_1. cbn [arg nth]. rewrite dflt_one.
-  pose proof (R0_bounds X v HX) as B. pose proof (R0_Rg X v HX) as G. pose proof HX as [].
-  assert (1 <= one n) as O1 by (unfold one; split_ifs; lia). set (a0 := one n) in *. rewrite r_cur0.
-  pose proof (remove_chars_Keeps X (cur X) a0 r_inv0) as Kp.
-  rewrite r_cur0 in Kp. cbn [fst snd] in Kp. rewrite r_h0, r_w0 in Kp. specialize (Kp ltac:(lia) ltac:(lia)).
-  destruct (cursor_split X v G) as (ET & LA & Lp & Ls & Rr). cbv zeta in ET, LA, Lp, Ls, Rr.
-  set (A := takez (v_y v) (term X)) in *. set (C := dropz (v_y v + 1) (term X)) in *.
-  set (r := rowz (term X) (v_y v)) in *. set (p := takez (v_x v) r) in *. set (sg := dropz (v_x v) r) in *.
-  assert (remove_chars X (v_x v, v_y v) a0
-          = Ok (with_term X (A ++ (p ++ Nat.iter (Z.to_nat (Z.min a0 (v_w v))) (shl (empty_char X [32])) sg) :: C))) as E.
-  { unfold remove_chars. replace (a0 =? 0) with false by lia. rewrite r_w0. rewrite ET.
-    rewrite (dch_iter' _ _ A C p sg (v_x v) (v_y v)) by (auto; lia). reflexivity. }
-  rewrite E in Kp |- *. apply K_Inv in Kp.
-  eexists. split; [reflexivity|]. cbn [exec].
-  apply (R0_grid X v _ _ HX); try reflexivity.
-  apply Rg_with_term; [exact G|exact Kp|].
-  subst A C. apply grid_set_row; [exact r_grid0|].
-  rewrite shl_iter by lia. rewrite Ls.
-  set (kk := Z.min a0 (v_w v - v_x v)).
-  replace (Nat.min (Z.to_nat (Z.min a0 (v_w v))) (Z.to_nat (v_w v - v_x v))) with (Z.to_nat kk) by lia.
-  subst p sg. apply Forall2_app; [apply Forall2_takez; exact Rr|].
-  apply Forall2_app.
-  - rewrite dropz_dropz' by lia. replace (Z.of_nat (Z.to_nat kk) + v_x v) with (v_x v + kk) by lia.
-    apply Forall2_dropz. exact Rr.
-  - unfold blanks. apply Forall2_repeat'. split; [reflexivity|exact Logic.I].
-Qed.
-
-(* ---------- insert / delete lines ---------- *)
-Lemma il_iter (e : row) k (A C : list row) bot : forall (s : list row), 0 < zlen s -> bot = zlen A + zlen s - 1 ->
-  iter_res k (fun t => do q <- pop t bot; Ok (insert (snd q) (zlen A) e)) (A ++ s ++ C)
-  = Ok (A ++ Nat.iter k (shr e) s ++ C).
-Proof.
-  induction k; intros s Hs Hb; [reflexivity|].
-  cbn [iter_res]. destruct (il_step A s C e Hs) as (x0 & E1 & E2). rewrite <- Hb in E1.
-  unfold row, cell in *. rewrite E1. cbn [bind snd]. rewrite E2.
-  rewrite IHk by (rewrite ?zlen_shr; auto; lia). rewrite iter_succ_r. reflexivity.
-Qed.
-
-Lemma dl_iter (e : row) k (A C : list row) bot : forall (s : list row), 0 < zlen s -> bot = zlen A + zlen s - 1 ->
-  iter_res k (fun t => do q <- pop t (zlen A); Ok (insert (snd q) bot e)) (A ++ s ++ C)
-  = Ok (A ++ Nat.iter k (shl e) s ++ C).
-Proof.
-  induction k; intros s Hs Hb; [reflexivity|].
-  cbn [iter_res]. destruct (dl_step A s C e Hs) as (x0 & E1 & E2). rewrite <- Hb in E2.
-  unfold row, cell in *. rewrite E1. cbn [bind snd]. rewrite E2.
-  rewrite IHk by (rewrite ?zlen_shl; auto; lia). rewrite iter_succ_r. reflexivity.
-Qed.
-
-Lemma il_iter' (e : row) k (A C : list row) bot y (s : list row) : y = zlen A -> 0 < zlen s -> bot = zlen A + zlen s - 1 ->
-  iter_res k (fun t => do q <- pop t bot; Ok (insert (snd q) y e)) (A ++ s ++ C) = Ok (A ++ Nat.iter k (shr e) s ++ C).
-Proof. intros ->. apply il_iter. Qed.
-
-Lemma dl_iter' (e : row) k (A C : list row) bot y (s : list row) : y = zlen A -> 0 < zlen s -> bot = zlen A + zlen s - 1 ->
-  iter_res k (fun t => do q <- pop t y; Ok (insert (snd q) bot e)) (A ++ s ++ C) = Ok (A ++ Nat.iter k (shl e) s ++ C).
-Proof. intros ->. apply dl_iter. Qed.
-
-(* the grid split around the lines from the cursor row to the bottom margin *)
-Lemma region_split (T : list row) y bot : 0 <= y <= bot -> bot < zlen T ->
-  T = takez y T ++ takez (bot - y + 1) (dropz y T) ++ dropz (bot + 1) T /\
-  zlen (takez y T) = y /\ zlen (takez (bot - y + 1) (dropz y T)) = bot - y + 1.
-Proof.
-  intros H1 H2. split; [|rewrite !zlen_takez, zlen_dropz by lia; lia].
-  rewrite <- (takez_dropz T y) at 1. f_equal.
-  rewrite <- (takez_dropz (dropz y T) (bot - y + 1)) at 1. f_equal.
-  rewrite dropz_dropz' by lia. f_equal. lia.
-Qed.
-
-Definition il_ref (v : vt) (n : Z) : vt :=
-  if (v_top v <=? v_y v) && (v_y v <=? v_bot v) then
-    let k := Z.min (one n) (v_bot v - v_y v + 1) in
-    let g := v_g v in
-    with_g v (takez (v_y v) g ++ blank_rows (v_w v) k ++ sub g (v_y v) (v_bot v + 1 - k) ++ dropz (v_bot v + 1) g)
-  else v.
-Definition dl_ref (v : vt) (n : Z) : vt :=
-  if (v_top v <=? v_y v) && (v_y v <=? v_bot v) then
-    let k := Z.min (one n) (v_bot v - v_y v + 1) in
-    let g := v_g v in
-    with_g v (takez (v_y v) g ++ sub g (v_y v + k) (v_bot v + 1) ++ blank_rows (v_w v) k ++ dropz (v_bot v + 1) g)
-  else v.
-
-Lemma exec_il v n : exec v (CIl n) = with_xy (il_ref v n) 0 (v_y v) false.
-Proof. cbn [exec]. unfold il_ref. destruct ((v_top v <=? v_y v) && (v_y v <=? v_bot v)); reflexivity. Qed.
-Lemma exec_dl v n : exec v (CDl n) = with_xy (dl_ref v n) 0 (v_y v) false.
-Proof. cbn [exec]. unfold dl_ref. destruct ((v_top v <=? v_y v) && (v_y v <=? v_bot v)); reflexivity. Qed.
-
-Lemma blank_rows_rel' X v k : Rg X v -> Forall2 (Forall2 cell_rel) (repeat (empty_line X [32]) (Z.to_nat k)) (blank_rows (v_w v) k).
-Proof. intros G. unfold blank_rows. apply Forall2_repeat'. apply (blank_line_rel X v G). Qed.
-
-Lemma insert_lines_R0 X v n :
-  R0 X v -> exists s', insert_lines X (one n) = Ok s' /\ R0 s' (il_ref v n).
-Proof.
-  intros HX. pose proof (R0_bounds X v HX) as B. pose proof (R0_Rg X v HX) as G. pose proof HX as [].
-  assert (1 <= one n) as O1 by (unfold one; split_ifs; lia). set (a0 := one n) in *.
-  pose proof (insert_lines_Keeps X a0 r_inv0) as Kp.
-  unfold insert_lines, il_ref in *. rewrite r_cur0 in *. cbn [snd] in *. rewrite r_top0, r_bot0, r_h0 in *.
-  destruct ((v_top v <=? v_y v) && (v_y v <=? v_bot v)) eqn:C0; cbn [negb] in *.
-  2:{ eexists. split; [reflexivity|exact HX]. }
-  replace (a0 =? 0) with false in * by lia. cbv zeta in *.
-  pose proof (i_rows X r_inv0) as Lt. rewrite r_h0 in Lt.
-  destruct (region_split (term X) (v_y v) (v_bot v)) as (ET & LA & Ls); [lia|lia|].
-  set (A := takez (v_y v) (term X)) in *. set (C := dropz (v_bot v + 1) (term X)) in *.
-  set (sg := takez (v_bot v - v_y v + 1) (dropz (v_y v) (term X))) in *.
-  assert (iter_res (Z.to_nat (Z.min a0 (v_h v)))
-            (fun t => do p <- pop t (v_bot v); Ok (insert (snd p) (v_y v) (empty_line X [32]))) (term X)
-          = Ok (A ++ Nat.iter (Z.to_nat (Z.min a0 (v_h v))) (shr (empty_line X [32])) sg ++ C)) as E.
-  { rewrite ET. apply il_iter'; lia. }
-  unfold row, cell in *. rewrite E in Kp |- *. cbn [bind] in *. apply K_Inv in Kp.
-  eexists. split; [reflexivity|].
-  apply (R0_grid X v _ _ HX); try reflexivity.
-  apply Rg_with_term; [exact G|exact Kp|].
-  rewrite shr_iter by lia. rewrite Ls.
-  set (kk := Z.min a0 (v_bot v - v_y v + 1)).
-  replace (Nat.min (Z.to_nat (Z.min a0 (v_h v))) (Z.to_nat (v_bot v - v_y v + 1))) with (Z.to_nat kk) by lia.
-  subst A C sg. unfold grid_rel.
-  apply Forall2_app; [apply Forall2_takez; exact r_grid0|].
-  rewrite <- app_assoc.
-  apply Forall2_app; [apply (blank_rows_rel' X v kk G)|].
-  apply Forall2_app; [|apply Forall2_dropz; exact r_grid0].
-  unfold sub. rewrite takez_takez by lia.
-  replace (v_bot v - v_y v + 1 - Z.of_nat (Z.to_nat kk)) with (v_bot v + 1 - kk - v_y v) by lia.
-  apply Forall2_takez. apply Forall2_dropz. exact r_grid0.
-Qed.
-
-Lemma remove_lines_R0 X v n :
-  R0 X v -> exists s', remove_lines X (one n) = Ok s' /\ R0 s' (dl_ref v n).
-Proof.
-  intros HX. pose proof (R0_bounds X v HX) as B. pose proof (R0_Rg X v HX) as G. pose proof HX as [].
-  assert (1 <= one n) as O1 by (unfold one; split_ifs; lia). set (a0 := one n) in *.
-  pose proof (remove_lines_Keeps X a0 r_inv0) as Kp.
-  unfold remove_lines, dl_ref in *. rewrite r_cur0 in *. cbn [snd] in *. rewrite r_top0, r_bot0, r_h0 in *.
-  destruct ((v_top v <=? v_y v) && (v_y v <=? v_bot v)) eqn:C0; cbn [negb] in *.
-  2:{ eexists. split; [reflexivity|exact HX]. }
-  replace (a0 =? 0) with false in * by lia. cbv zeta in *.
-  pose proof (i_rows X r_inv0) as Lt. rewrite r_h0 in Lt.
-  destruct (region_split (term X) (v_y v) (v_bot v)) as (ET & LA & Ls); [lia|lia|].
-  set (A := takez (v_y v) (term X)) in *. set (C := dropz (v_bot v + 1) (term X)) in *.
-  set (sg := takez (v_bot v - v_y v + 1) (dropz (v_y v) (term X))) in *.
-  assert (iter_res (Z.to_nat (Z.min a0 (v_h v)))
-            (fun t => do p <- pop t (v_y v); Ok (insert (snd p) (v_bot v) (empty_line X [32]))) (term X)
-          = Ok (A ++ Nat.iter (Z.to_nat (Z.min a0 (v_h v))) (shl (empty_line X [32])) sg ++ C)) as E.
-  { rewrite ET. apply dl_iter'; lia. }
-  unfold row, cell in *. rewrite E in Kp |- *. cbn [bind] in *. apply K_Inv in Kp.
-  eexists. split; [reflexivity|].
-  apply (R0_grid X v _ _ HX); try reflexivity.
-  apply Rg_with_term; [exact G|exact Kp|].
-  rewrite shl_iter by lia. rewrite Ls.
-  set (kk := Z.min a0 (v_bot v - v_y v + 1)).
-  replace (Nat.min (Z.to_nat (Z.min a0 (v_h v))) (Z.to_nat (v_bot v - v_y v + 1))) with (Z.to_nat kk) by lia.
-  subst A C sg. unfold grid_rel.
-  apply Forall2_app; [apply Forall2_takez; exact r_grid0|].
-  rewrite <- app_assoc.
-  apply Forall2_app.
-  - unfold sub. rewrite dropz_takez by lia. rewrite dropz_dropz' by lia.
-    replace (v_bot v - v_y v + 1 - Z.of_nat (Z.to_nat kk)) with (v_bot v + 1 - (v_y v + kk)) by lia.
-    replace (Z.of_nat (Z.to_nat kk) + v_y v) with (v_y v + kk) by lia.
-    apply Forall2_takez. apply Forall2_dropz. exact r_grid0.
-  - apply Forall2_app; [apply (blank_rows_rel' X v kk G)|apply Forall2_dropz; exact r_grid0].
-Qed.
-
-Lemma sim_then_cr s bytes v1 :
-  (exists s1, addbytes s bytes = Ok s1 /\ R s1 v1) ->
-  exists s', addbytes s (bytes ++ [13]) = Ok s' /\ R s' (with_xy v1 0 (v_y v1) false).
-Proof.
-  intros (s1 & E1 & R1). rewrite addbytes_app, E1. cbn [bind]. apply (sim_cr s1 v1 R1).
-Qed.
-
-Lemma sim_il s v n : R s v -> small n ->
-  exists s', addbytes s (enc_cmd (CIl n)) = Ok s' /\ R s' (exec v (CIl n)).
-Proof.
-  intros HR Hs. rewrite exec_il. cbn [enc_cmd].
-  replace (v_y v) with (v_y (il_ref v n)) by (unfold il_ref; split_ifs; reflexivity).
-  apply sim_then_cr.
-  eapply (sim_csi s v [n] 76 1 1 76); [assumption|repeat constructor; assumption|reflexivity|unfold plain_byte; lia|].
-  intros X HX. rewrite cd_chars. replace (76 =? 64) with false by reflexivity. replace (76 =? 80) with false by reflexivity.
-  replace (76 =? 76) with true by reflexivity. rewrite csi_args_1. cbn [arg nth]. rewrite dflt_one.
-  apply insert_lines_R0. assumption.
-Qed.
-
-Lemma sim_dl s v n : R s v -> small n ->
-  exists s', addbytes s (enc_cmd (CDl n)) = Ok s' /\ R s' (exec v (CDl n)).
-Proof.
-  intros HR Hs. rewrite exec_dl. cbn [enc_cmd].
-  replace (v_y v) with (v_y (dl_ref v n)) by (unfold dl_ref; split_ifs; reflexivity).
-  apply sim_then_cr.
-  eapply (sim_csi s v [n] 77 1 1 77); [assumption|repeat constructor; assumption|reflexivity|unfold plain_byte; lia|].
-  intros X HX. rewrite cd_chars. replace (77 =? 64) with false by reflexivity. replace (77 =? 80) with false by reflexivity.
-  replace (77 =? 76) with false by reflexivity. replace (77 =? 77) with true by reflexivity.
-  rewrite csi_args_1. cbn [arg nth]. rewrite dflt_one.
-  apply remove_lines_R0. assumption.
-Qed.
-
-(* ---------- SGR (the classic parameters: no 38 / 48 colour sequences) ---------- *)
-Lemma sgr_cons n r a : (n =? 38) || (n =? 48) = false -> sgr (n :: r) a = sgr r (sgr1 n a).
-Proof. intros H. cbn [sgr]. rewrite H. reflexivity. Qed.
-
-Definition sgr_values : list Z :=
-  [0; 1; 4; 5; 7; 24; 25; 27; 30; 31; 32; 33; 34; 35; 36; 37; 39; 40; 41; 42; 43; 44; 45; 46; 47; 49].
-
-Lemma sgr_value_plain a : In a sgr_values -> (a =? 38) || (a =? 48) = false.
-Proof. unfold sgr_values. cbn [In]. intros H. repeat (destruct H as [H|H]; [subst a; reflexivity|]). contradiction. Qed.
-
-Lemma sgr_norm l : Forall (fun n => In (Z.max n 0) sgr_values) l -> forall a, sgr l a = sgr (map (fun n => Z.max n 0) l) a.
-Proof.
-  induction l as [|n r IH]; intros Hl a; [reflexivity|]. inversion Hl as [|? ? Hn Hr]; subst. cbn [map].
-  pose proof (sgr_value_plain _ Hn) as P.
-  assert ((n =? 38) || (n =? 48) = false) as P' by lia.
-  rewrite (sgr_cons n r a P'). rewrite (sgr_cons _ _ a P). rewrite IH by assumption. f_equal.
-  destruct a. unfold sgr1. destruct (n <=? 0) eqn:C.
-  - replace (Z.max n 0 <=? 0) with true by lia. reflexivity.
-  - replace (Z.max n 0) with n by lia. rewrite C. reflexivity.
-Qed.
-
-(* the running values of sgi_to_attrspec's loop against the reference rendition *)
-Definition G_rel (g : sgi_t) (a : rattr) (cs : charset_t) (dc : bool) : Prop :=
-  g_fg g = r_fg a /\ g_bg g = r_bg a /\ g_bold g = r_bold a /\ g_ul g = r_ul a /\ g_blink g = r_blink a /\
-  g_so g = r_rev a /\ RA_ok a /\ (g_colors g = 1 \/ g_colors g = 16) /\
-  ((g_fg g <> None \/ g_bg g <> None) -> g_colors g = 16) /\ g_cs g = cs /\ g_dc g = dc.
-
-Lemma memz_in b l : memz b l = true -> In b l.
-Proof.
-  induction l; cbn [memz]; [discriminate|]. intros H. apply orb_prop in H. destruct H as [H|H].
-  - left. lia.
-  - right. auto.
-Qed.
-
-Ltac eval_cmp :=
-  repeat match goal with
-         | |- context [?a <=? ?b] =>
-             let r := eval vm_compute in (a <=? b) in
-             match r with true => idtac | false => idtac end; change (a <=? b) with r
-         | |- context [?a =? ?b] =>
-             let r := eval vm_compute in (a =? b) in
-             match r with true => idtac | false => idtac end; change (a =? b) with r
-         end.
-
-Lemma sgi_step_rel a g ra cs dc : In a sgr_values -> G_rel g ra cs dc -> G_rel (sgi_step1 a g) (sgr1 a ra) cs dc.
-Proof.
-  intros Ha (E1 & E2 & E3 & E4 & E5 & E6 & (O1 & O2) & Ec & Ei & Ecs & Edc).
-  destruct g as [fg bg colors bold ul blink so gcs gdc gfi gbi]. destruct ra as [rf rb rbo rul rbl rrv].
-  cbn [g_fg g_bg g_colors g_bold g_ul g_blink g_so g_cs g_dc r_fg r_bg r_bold r_ul r_blink r_rev] in *. subst.
-  unfold sgr_values in Ha. cbn [In] in Ha.
-  repeat (destruct Ha as [Ha|Ha]; [subst a; unfold G_rel, RA_ok, sgi_step1, sgr1, ra0; eval_cmp; cbn; repeat split; auto; try lia; try (intros [?|?]; try congruence; apply Ei; auto); try (destruct Ec; lia)|]).
-  contradiction.
-Qed.
-
-Lemma sgi_loop_rel l : forall g ra cs dc, Forall (fun a => In a sgr_values) l -> G_rel g ra cs dc ->
-  G_rel (sgi_loop l g) (sgr l ra) cs dc.
-Proof.
-  induction l as [|a r IH]; intros g ra cs dc Hl HG; [exact HG|].
-  inversion Hl as [|? ? Ha Hr]; subst. cbn [sgi_loop]. pose proof (sgr_value_plain a Ha) as E.
-  rewrite (sgr_cons a r ra E). rewrite E. apply IH; [assumption|]. apply sgi_step_rel; assumption.
-Qed.
-
-Ltac lia_cmp :=
-  repeat match goal with
-         | |- context [?a <=? ?b] => first [replace (a <=? b) with true by lia | replace (a <=? b) with false by lia]
-         | |- context [?a <? ?b] => first [replace (a <? b) with true by lia | replace (a <? b) with false by lia]
-         | |- context [?a =? ?b] => first [replace (a =? b) with true by lia | replace (a =? b) with false by lia]
-         end.
-
-Lemma mk_attrspec_rel g ra cs dc :
-  G_rel g ra cs dc ->
-  mk_attrspec (match g_fg g with
-               | Some f => if g_bold g && (g_colors g =? 16) && (f <? 8) then Some (f + 8) else Some f
-               | None => None
-               end) (g_bg g) (g_colors g) (g_bold g) (g_ul g) (g_blink g) (g_so g) = Ok (attr_of_ref ra).
-Proof.
-  intros (E1 & E2 & E3 & E4 & E5 & E6 & (O1 & O2) & Ec & Ei & _ & _).
-  destruct g as [fg bg colors bold ul blink so gcs gdc gfi gbi]. destruct ra as [rf rb rbo rul rbl rrv].
-  cbn [g_fg g_bg g_colors g_bold g_ul g_blink g_so g_cs g_dc r_fg r_bg r_bold r_ul r_blink r_rev] in *. subst.
-  unfold mk_attrspec, attr_of_ref, colors_ok, color_ok. cbn [r_fg r_bg r_bold r_ul r_blink r_rev].
-  destruct rf as [f|], rb as [b|];
-    try (assert (colors = 16) as -> by (apply Ei; (left; discriminate) || (right; discriminate)));
-    try (destruct Ec as [-> | ->]);
-    destruct rbo, rul, rbl, rrv; cbv beta iota in O1, O2;
-    do 4 (lia_cmp; cbn [andb orb negb is_none]; cbv beta iota); reflexivity.
-Qed.
-
-(* the values with which sgi_to_attrspec starts when the current AttrSpec is that of a reference rendition *)
-Lemma G_rel_start ra cs dc fi bi : RA_ok ra ->
-  match attr_of_ref ra with
-  | None => G_rel (mkSgi None None 1 false false false false cs dc fi bi) ra cs dc
-  | Some a => G_rel (mkSgi (unbright a (a_fg a)) (unbright a (a_bg a)) (a_colors a) (a_bold a) (a_ul a) (a_blink a) (a_so a) cs dc fi bi) ra cs dc
-  end.
-Proof.
-  destruct ra as [rf rb rbo rul rbl rrv]. unfold RA_ok, attr_of_ref. cbn [r_fg r_bg r_bold r_ul r_blink r_rev]. intros [O1 O2].
-  destruct rf as [f|], rb as [b|], rbo, rul, rbl, rrv; cbn [andb orb negb is_none];
-    unfold G_rel, RA_ok, unbright; cbn [g_fg g_bg g_colors g_bold g_ul g_blink g_so g_cs g_dc r_fg r_bg r_bold r_ul r_blink r_rev
-                                    a_fg a_bg a_colors a_bold a_ul a_blink a_so andb];
-    lia_cmp; cbn [andb]; repeat split; auto; try lia; try (f_equal; lia); try (intros [?|?]; congruence).
-Qed.
-
-Lemma cd_sgr X args q : csi_dispatch X 109 args q = csi_set_attr X args.
-Proof. unfold csi_dispatch. destruct (cur X). reflexivity. Qed.
-
-Lemma repeatz_nonpos {A} (x : A) n : n <= 0 -> repeatz x n = [].
-Proof. intros. unfold repeatz. replace (Z.to_nat n) with 0%nat by lia. reflexivity. Qed.
-
-Lemma csi_args_sgr l :
-  csi_args l 1 0 = map (fun n => Z.max n 0) (match l with [] => [0] | _ => l end).
-Proof.
-  unfold csi_args. cbv zeta. destruct l as [|a r]; [reflexivity|].
-  set (l := a :: r).
-  rewrite repeatz_nonpos by (rewrite zlen_map; subst l; rewrite zlen_cons; pose proof (zlen_nonneg r); lia).
-  rewrite app_nil_r. rewrite map_map. apply map_ext. intros n. apply dflt_zero.
-Qed.
-
-Lemma sim_sgr s v l : R s v -> cmd_ok (CSgr l) = true -> Forall small l ->
-  exists s', addbytes s (enc_cmd (CSgr l)) = Ok s' /\ R s' (exec v (CSgr l)).
-Proof.
-  intros HR Hok Hs. cbn [enc_cmd exec].
-  eapply (sim_csi s v l 109 1 0 109); [assumption|assumption|reflexivity|unfold plain_byte; lia|].
-  intros X HX. rewrite cd_sgr. rewrite csi_args_sgr.
-  set (l' := match l with [] => [0] | _ => l end).
-  assert (Forall (fun n => In (Z.max n 0) sgr_values) l') as Hv0.
-  { apply Forall_forall. intros n Hn.
-    assert (memz n [-1; 0; 1; 4; 5; 7; 24; 25; 27; 30; 31; 32; 33; 34; 35; 36; 37; 39; 40; 41; 42; 43; 44; 45; 46; 47; 49] = true) as Hm.
-    { subst l'. cbn [cmd_ok] in Hok. destruct l as [|a0 r0]; [destruct Hn as [<-|[]]; reflexivity|].
-      rewrite forallb_forall in Hok. apply Hok. exact Hn. }
-    apply memz_in in Hm. cbn [In] in Hm. unfold sgr_values. cbn [In].
-    repeat (destruct Hm as [Hm|Hm]; [subst n; cbv; tauto|]). contradiction. }
-  rewrite (sgr_norm l' Hv0). set (args := map (fun n => Z.max n 0) l').
-  assert (Forall (fun a => In a sgr_values) args) as Hv.
-  { subst args. apply Forall_forall. intros a Ha. apply in_map_iff in Ha. destruct Ha as (n & <- & Hn).
-    rewrite Forall_forall in Hv0. apply Hv0. exact Hn. }
-  pose proof HX as [I1 _ _ _ _ _ _ _ _ A1 O1 _ M1 C1].
-  unfold csi_set_attr. set (ra := v_attr v) in *.
-  assert (exists g, G_rel g (sgr args ra) (cset X) (m_display_ctrl (modes X)) /\
-            match attrspec X with
-            | Some a => sgi_to_attrspec X args (unbright a (a_fg a)) (unbright a (a_bg a)) (a_bold a) (a_ul a) (a_blink a) (a_so a) (a_colors a)
-            | None => sgi_to_attrspec X args None None false false false false 1
-            end = Ok (with_modes (with_cset X (g_cs g)) (set_m_display_ctrl (modes X) (g_dc g)), attr_of_ref (sgr args ra)))
-    as (g & Gg & E2).
-  { rewrite A1.
-    assert (forall g0, G_rel g0 ra (cset X) (m_display_ctrl (modes X)) ->
-              exists g, G_rel g (sgr args ra) (cset X) (m_display_ctrl (modes X)) /\ g = sgi_loop args g0) as Hloop.
-    { intros g0 G0. eexists. split; [|reflexivity]. apply sgi_loop_rel; assumption. }
-    destruct (attr_of_ref ra) as [a|] eqn:Ea.
-    - pose proof (G_rel_start ra (cset X) (m_display_ctrl (modes X)) (negb (a_colors a =? 16777216)) (negb (a_colors a =? 16777216)) O1) as G0.
-      rewrite Ea in G0. destruct (Hloop _ G0) as (g & Gl & Eg).
-      exists g. split; [exact Gl|]. unfold sgi_to_attrspec. cbv zeta. rewrite <- Eg.
-      pose proof Gl as (_ & _ & _ & _ & _ & _ & _ & Ec & _).
-      replace (g_colors g =? 16777216) with false by (destruct Ec as [-> | ->]; reflexivity). cbn [bind fst snd].
-      match goal with |- bind ?M _ = _ => replace M with (@Ok (option attr) (attr_of_ref (sgr args ra))) by (symmetry; apply (mk_attrspec_rel _ _ _ _ Gl)) end. reflexivity.
-    - pose proof (G_rel_start ra (cset X) (m_display_ctrl (modes X)) (negb (1 =? 16777216)) (negb (1 =? 16777216)) O1) as G0.
-      rewrite Ea in G0. destruct (Hloop _ G0) as (g & Gl & Eg).
-      exists g. split; [exact Gl|]. unfold sgi_to_attrspec. cbv zeta. rewrite <- Eg.
-      pose proof Gl as (_ & _ & _ & _ & _ & _ & _ & Ec & _).
-      replace (g_colors g =? 16777216) with false by (destruct Ec as [-> | ->]; reflexivity). cbn [bind fst snd].
-      match goal with |- bind ?M _ = _ => replace M with (@Ok (option attr) (attr_of_ref (sgr args ra))) by (symmetry; apply (mk_attrspec_rel _ _ _ _ Gl)) end. reflexivity. }
-  rewrite E2. cbn [bind].
-  destruct Gg as (_ & _ & _ & _ & _ & _ & Ok' & _ & _ & Ecs & Edc). rewrite Ecs, Edc.
-  rewrite M1. cbn [m_reverse_video set_m_display_ctrl modes0 m_display_ctrl modes with_modes with_cset].
-  eexists. split; [reflexivity|]. pose proof HX as [].
-  constructor; cbn [v_w v_h v_g v_x v_y v_pend v_top v_bot v_attr width height term cur sr_start sr_end rotten attrspec u8eat
-                    modes cset with_attrspec with_modes with_cset]; auto.
-  eapply K_Inv. eapply K_trans; [apply with_cset_K; exact I1|].
-  assert (K (with_cset X (cset X)) (with_modes (with_cset X (cset X)) modes0)) as Km.
-  { apply with_modes_K; [apply with_cset_K; exact I1|]. cbn. discriminate. }
-  eapply K_trans; [exact Km|].
-  apply with_attrspec_K; [apply Km|].
-  destruct (attr_of_ref (sgr args ra)) eqn:Ea; [|exact Logic.I].
-  (* the built AttrSpec is in the domain *)
-  unfold attr_of_ref in Ea. destruct Ok' as [P1 P2].
-  destruct (sgr args ra) as [rf rb rbo rul rbl rrv]. cbn [r_fg r_bg r_bold r_ul r_blink r_rev] in *.
-  destruct (is_none rf && is_none rb && negb (rbo || rul || rbl || rrv)); [discriminate|]. inversion Ea; subst.
-  unfold oattr_ok, attr_ok, colors_ok, color_ok. cbn [a_colors a_fg a_bg].
-  destruct rf as [f|], rb as [b|], rbo; cbn [is_none andb]; lia_cmp; cbn [andb]; repeat split; reflexivity.
-Qed.
-
-(* ---------- HT ---------- *)
-Lemma nthz_repeat {A} (x : A) n i : 0 <= i < Z.of_nat n -> nthz (repeat x n) i = Some x.
-Proof.
-  intros H. unfold nthz. replace (i <? 0) with false by lia.
-  assert (Z.to_nat i < n)%nat as Hn by lia. revert Hn. generalize (Z.to_nat i) as k. clear. intros k. revert k.
-  induction n; intros k Hk; [lia|]. destruct k; [reflexivity|]. cbn [repeat nth_error]. apply IHn. lia.
-Qed.
-
-Lemma is_tabstop_default t v x : Rg t v -> 0 <= x < v_w v -> is_tabstop t x = Ok (x mod 8 =? 0).
-Proof.
-  intros H Hx. pose proof H as []. unfold is_tabstop. rewrite g_tabs0. unfold tabs0, repeatz.
-  pose proof (tablen_bound (v_w v) ltac:(lia)) as B.
-  set (tl := if 0 <? v_w v mod 8 then v_w v / 8 + 1 else v_w v / 8) in *.
-  assert (0 <= x / 8 < tl) as Hi.
-  { split; [apply Z.div_pos; lia|apply Z.div_lt_upper_bound; lia]. }
-  rewrite (get_index_nthz _ (x / 8) 1); [|lia|apply nthz_repeat; lia]. cbn [bind].
-  pose proof (Z.mod_pos_bound x 8 ltac:(lia)) as Hm. set (m := x mod 8) in *.
-  assert (m = 0 \/ m = 1 \/ m = 2 \/ m = 3 \/ m = 4 \/ m = 5 \/ m = 6 \/ m = 7) as E by lia.
-  clearbody m. repeat (destruct E as [E|E]; [subst m; reflexivity|]). subst m. reflexivity.
-Qed.
-
-Lemma tab_loop_default fuel : forall t v x, Rg t v -> 0 <= x <= v_w v - 1 -> v_w v - 1 - x < Z.of_nat fuel ->
-  tab_loop fuel t x = Ok (t, Z.min (v_w v - 1) ((x / 8 + 1) * 8)).
-Proof.
-  induction fuel; intros t v x H Hx Hf; [lia|]. pose proof H as [].
-  cbn [tab_loop]. rewrite g_w0.
-  pose proof (Z.div_mod x 8 ltac:(lia)) as Dx. pose proof (Z.mod_pos_bound x 8 ltac:(lia)) as Mx.
-  destruct (x <? v_w v - 1) eqn:C.
-  - rewrite (is_tabstop_default t v (x + 1) H) by lia. cbn [bind].
-    destruct ((x + 1) mod 8 =? 0) eqn:C2.
-    + f_equal. f_equal.
-      assert ((x + 1) mod 8 = 0) as M1 by lia. pose proof (Z.div_mod (x + 1) 8 ltac:(lia)) as D1. rewrite M1 in D1.
-      assert (x mod 8 = 7) as M7.
-      { assert ((x + 1) mod 8 = (x mod 8 + 1) mod 8) as E by (rewrite Z.add_mod_idemp_l by lia; reflexivity).
-        rewrite M1 in E. destruct (Z.eq_dec (x mod 8) 7); [assumption|]. rewrite Z.mod_small in E by lia. lia. }
-      lia.
-    + rewrite (IHfuel t v (x + 1) H) by lia. f_equal. f_equal. f_equal.
-      assert ((x + 1) / 8 = x / 8) as E.
-      { symmetry. apply (Z.div_unique (x + 1) 8 (x / 8) (x mod 8 + 1)); [|lia].
-        assert ((x + 1) mod 8 = (x mod 8 + 1) mod 8) as E by (rewrite Z.add_mod_idemp_l by lia; reflexivity).
-        destruct (Z.eq_dec (x mod 8) 7) as [E7|E7]; [rewrite E7 in E; change ((7 + 1) mod 8) with 0 in E; lia|lia]. }
-      rewrite E. reflexivity.
-  - f_equal. f_equal. lia.
-Qed.
-
-Lemma pc_ht s : m_display_ctrl (modes s) = false -> process_char s [9] = tab s.
-Proof. intros Hd. unfold process_char. destruct (cur s). cbv zeta. rewrite Hd. reflexivity. Qed.
-
-Lemma sim_ht s v : R s v -> ambiguous v CHt = false ->
-  exists s', addbytes s (enc_cmd CHt) = Ok s' /\ R s' (exec v CHt).
-Proof.
-  intros HR Ha. pose proof (R_idle s v HR) as [He Hp Hu Hd Hm]. destruct HR as (H0 & _).
-  pose proof (R0_bounds s v H0) as B. pose proof H0 as [].
-  cbn [enc_cmd exec ambiguous] in *. rewrite addbytes_1. rewrite addbyte_ascii by (auto; lia). rewrite pc_ht by assumption.
-  unfold tab. rewrite r_cur0.
-  rewrite (tab_loop_default _ s v (v_x v) (R0_Rg s v H0)) by lia. cbn [bind fst snd].
-  eexists. split; [reflexivity|].
-  destruct (stc_frame (with_rotten s false) (Z.min (v_w v - 1) ((v_x v / 8 + 1) * 8)) (v_y v)) as (_ & _ & _ & Ei & Ep & _).
-  split; [|split; [rewrite Ei; exact He|rewrite Ep; exact Hp]].
-  pose proof (Z.div_pos (v_x v) 8 ltac:(lia) ltac:(lia)).
-  erewrite with_xy_eq; [apply R0_move; assumption| |]; unfold clamp; split_ifs; lia.
 Qed.
 
